@@ -1,8 +1,49 @@
-// L8: BoxedUint algorithms over assumed primitives (WIP)
+// L8: BoxedUint algorithms (src/uint/boxed/*.rs) proved over ASSUMED contracts of the boxed primitives -- C20 C07 C02 C15 C10
+// (companions: l8_boxed_invmod.rs = inv_mod / inv_mod2k*, l8_boxed_pow.rs = BoxedMontyMultiplier + pow_montgomery_form,
+//  l8_boxed_ct.rs = ct_assign, l8_boxed_lemmas.rs = shared number-theory lemmas)
+//
+// Every BoxedUint handled here satisfies `wf()`: 1 <= nlimbs < 2^26 (`bits_precision()` = `len as u32 * 64` overflows above); the
+// contracts state value `v()` AND result precision `nl()` (= bits_precision / 64) -- C15 "results have the documented precision".
+//
+// Layer 1, ASSUMED (`stub`; Vec / iterator / closure / `vec!` code, contracts read off the code of /repo; bounded Kani harnesses cover them):
+//   zero_with_precision, is_zero, overflowing_shl_assign, overflowing_shr_assign, shl1_assign, shr1_assign (`<<=`/`>>=` by an i32 literal),
+//   adc, sbb (fold_limbs: result precision = max, shorter operand zero-extended), adc_assign, sbb_assign (rhs: impl AsRef<[Limb]>, asserts
+//   rhs not wider), mul (n + m limbs), shorten, bitand (map_limbs), cmp_vartime (core::cmp::max / Option::copied unspecified in vstd),
+//   ConstantTimeEq::ct_eq, ConstantTimeSelect::ct_select (equal precisions, else truncation / index panic), Ord::cmp,
+//   as_limbs, as_limbs_mut, From<u64 | u128 | Limb | &[Limb]>, div_rem_unchecked (constant-time Knuth D: equal limb counts asserted),
+//   div_rem_vartime (see LIMITATION 1), safegcd::boxed::gcd (Bernstein-Yang core), Integer::is_odd (provided trait method, hand-declared).
+//   Library: `<BoxedUint as Clone>::clone` (derived), `<[T]>::clone_from_slice`. Model of subtle: ConditionallySelectable (u64, u32),
+//   ConstantTimeGreater / ConstantTimeLess (u32), ConstantTimeEq for u32.
+// Layer 1, PROVED (`body`): nlimbs, bits_precision, one_with_precision, is_nonzero, leading_zeros, bits, bits_vartime, trailing_zeros (over the
+//   slice functions of l2_shift.rs), overflowing_shl / overflowing_shr / overflowing_shl1 / shr1 (clone + *_assign), wrapping_add / wrapping_sub /
+//   wrapping_mul, conditional_adc_assign / conditional_sbb_assign (limb loops), ct_gt, ct_lt, PartialEq / PartialOrd, Zero::is_zero, `BitAnd for Limb`,
+//   `ConditionallySelectable for Limb`, `AsRef<[Limb]> for BoxedUint`, NonZero::as_ref, div_rem(_limb)(_with_reciprocal), rem_limb*.
+// Layer 2, PROVED (`body`):
+//   C20  sqrt (incl. the Hast iteration bound `log2_bits() + 2`), sqrt_vartime, wrapping_sqrt(_vartime), checked_sqrt(_vartime), SquareRoot::sqrt,
+//        `BitOps::log2_bits` (default method of the trait, extracted from src/traits.rs) + `BitOps for BoxedUint::bits_precision`
+//   C07  add_mod_assign, add_mod, double_mod, sub_mod, sub_assign_mod_with_carry, sub_mod_special, neg_mod, neg_mod_special, mac_by_limb,
+//        mul_mod_special, AddMod / SubMod / NegMod impls            (BoxedUint has no add_mod_special / sub_mod_assign)
+//   C02/C15  div_rem, rem, wrapping_div, wrapping_div_vartime, checked_div, rem_vartime (PARTIAL, LIMITATION 1), CheckedDiv, DivVartime,
+//        the four `/` forms and `&a % &d`
+//   C10  `Gcd for BoxedUint::gcd` (power-of-two split around the assumed odd-operand safegcd)
+// NOT covered: mul_mod / MulMod (goes through BoxedMontyForm), traits with two methods in one impl
+//   (SquareRoot::sqrt_vartime, Gcd::gcd_vartime, ct_swap ...: a region emits one `impl` block per method, so one method per trait impl per unit).
+//
+// LIMITATION 1 (Verus): `&mut x.limbs[..k]` -- range IndexMut through a `Box<[Limb]>` place -- yields an unconstrained slice (the encoder types
+//   the receiver `MUTREF (BOX ..)`, vstd's slice index_mut axiom is guarded by `MUTREF $slice`). The multi-limb arms of div_rem_vartime /
+//   rem_vartime (`div_rem_vartime_in_place(&mut quo.limbs, &mut rem.limbs[..yc])`) are therefore unverifiable: div_rem_vartime is a stub with the
+//   general contract (sqrt_vartime needs it); rem_vartime is a body under the extra precondition `rhs < 2^64` (divisor VALUE fits one limb: the
+//   `1 =>` fast path; the other arms are dead code under it) -- this pins the result precision of the fast path (rhs.bits_precision()).
+// Lemmas copied from private lemmas of other units (request: make them `pub` there): the whole Newton / Hast development of l4_sqrt.rs,
+//   lemma_cond_sub / lemma_cond_add / lemma_mms_core of l4_modular.rs, lemma_bs_val_split of l7_boxed_slices.rs.
+// dev: /verif/tools/vunit.py l8_boxed_methods   (needs gen.py with `trait X` headers and `#![feature(sized_hierarchy)]` in root.rs)
 use vstd::prelude::*;
 use vstd::arithmetic::power::*;
 use vstd::arithmetic::power2::*;
 use vstd::arithmetic::div_mod::*;
+use vstd::std_specs::bits::*;
+use core::cmp::Ordering;
+use core::ops::{BitAnd, Div, Rem};
 use crate::speclib::*;
 use crate::speclib_bits::*;
 use crate::l0_prim::*;
@@ -10,35 +51,2683 @@ use crate::l0_corespec::*;
 use crate::l1_choice::*;
 use crate::l1_limb::*;
 use crate::l2_core::*;
+use crate::l2_shift::*;
 use crate::l2_subtle::*;
+use crate::l3_divlimb::*;
+use crate::l4_int::*;
 use crate::l4_sqrt::*;
+use crate::l4_modular::*;
 use crate::l7_traits::*;
 use crate::l7_boxed_div::*;
+use crate::l4_invmod::gcd as spec_gcd;
+use crate::l4_invmod::{lemma_gcd_divides};
+use crate::l8_boxed_lemmas::*;
 verus! {
 
+// ------------------------------------------------------------------------------------------------
+// library assumptions (no vstd specification)
+// ------------------------------------------------------------------------------------------------
+// `#[derive(Clone)]` of BoxedUint (marked `external_derive` in l7_boxed_div.rs): clones the boxed slice
 pub assume_specification [<BoxedUint as Clone>::clone] (x: &BoxedUint) -> (r: BoxedUint)
     ensures r.limbs@ == x.limbs@;
+// `<[T]>::clone_from_slice`: panics unless the lengths agree
+pub assume_specification<T: Clone> [<[T]>::clone_from_slice] (s: &mut [T], src: &[T])
+    requires old(s).len() == src.len()
+    ensures final(s)@ == src@;
 
-fn probe_clone(x: &BoxedUint) -> (r: BoxedUint)
-    ensures r.limbs@ == x.limbs@
+// ------------------------------------------------------------------------------------------------
+// vocabulary
+// ------------------------------------------------------------------------------------------------
+impl BoxedUint {
+    /// number of limbs (precision / 64)
+    pub open spec fn nl(&self) -> nat { self.limbs@.len() }
+    /// at least one limb and `bits_precision()` fits u32
+    pub open spec fn wf(&self) -> bool { 1 <= self.limbs@.len() < 0x400_0000 }
+}
+/// limbs allocated by `zero_with_precision(bits)`: ceil(bits / 64), but never 0 (`From<Vec<Limb>>` pushes a limb)
+pub open spec fn nlimbs_for(bits: u32) -> nat {
+    if bits == 0 { 1 } else { ((bits as int + 63) / 64) as nat }
+}
+pub open spec fn max_nat(a: nat, b: nat) -> nat { if a >= b { a } else { b } }
+
+proof fn lemma_rng(x: &BoxedUint)
+    ensures 0 <= x.v() < bp(x.nl()), bp(x.nl()) > 0
+{ lemma_val_bound(x.limbs@, x.nl()); }
+
+/// `zero_with_precision(bits_precision())` has the precision of self
+proof fn lemma_nlimbs_for(n: nat)
+    requires 1 <= n < 0x400_0000
+    ensures nlimbs_for((64 * n) as u32) == n
+{ }
+
+/// log2_bits(n) (l4_sqrt.rs) = floor(log2(64 n))   (copy of the private l4_sqrt::lemma_log2_bits)
+proof fn lemma_log2_bits(limbs: int)
+    requires 1 <= limbs < 0x400_0000
+    ensures 6 <= log2_bits(limbs) <= 31, pow2(log2_bits(limbs) as nat) <= 64 * limbs < pow2((log2_bits(limbs) + 1) as nat)
 {
-    x.clone()
+    lemma_lz32((64 * limbs) as u32);
+    let lz = u32_leading_zeros((64 * limbs) as u32);
+    lemma2_to64();
+    if lz > 25 { lemma_pow2_strictly_increases((32 - lz) as nat, 7); }
 }
 
-//@@ fn src/traits.rs | trait BitOps | log2_bits | body | props C20
-trait BitOps {
+/// floor(log2(m)) is unique
+proof fn lemma_log2_unique(m: int, a: nat, b: nat)
+    requires pow2(a) <= m < pow2(a + 1), pow2(b) <= m < pow2(b + 1)
+    ensures a == b
+{
+    if a < b { if a + 1 < b { lemma_pow2_strictly_increases(a + 1, b); } }
+    if b < a { if b + 1 < a { lemma_pow2_strictly_increases(b + 1, a); } }
+}
+
+// ------------------------------------------------------------------------------------------------
+// model of subtle 2.6.1, continued (external crate; ASSUMED -- same status as l2_subtle.rs / l7_traits.rs)
+// ------------------------------------------------------------------------------------------------
+/// subtle: `trait ConditionallySelectable: Copy { fn conditional_select(a, b, choice) -> Self;
+///   fn conditional_assign(&mut self, other, choice) { *self = Self::conditional_select(self, other, choice); } .. }`
+pub trait ConditionallySelectable: Copy {
+    spec fn sel_ok(a: Self, b: Self, c: Choice, r: Self) -> bool;
+    fn conditional_select(a: &Self, b: &Self, choice: Choice) -> (r: Self)
+        ensures Self::sel_ok(*a, *b, choice, r);
+    fn conditional_assign(&mut self, other: &Self, choice: Choice)
+        ensures Self::sel_ok(*old(self), *other, choice, *final(self))
+    { *self = Self::conditional_select(self, other, choice); }
+}
+// subtle: `to_signed_int!`-generated impls: `mask = -(choice.unwrap_u8() as iN) as uN; a ^ (mask & (a ^ b))`
+impl ConditionallySelectable for u64 {
+    open spec fn sel_ok(a: u64, b: u64, c: Choice, r: u64) -> bool { c.wf() ==> r == (if c.t() { b } else { a }) }
+    #[verifier::external_body]
+    fn conditional_select(a: &u64, b: &u64, choice: Choice) -> (r: u64)
+    { if choice.0 == 1 { *b } else { *a } }
+}
+impl ConditionallySelectable for u32 {
+    open spec fn sel_ok(a: u32, b: u32, c: Choice, r: u32) -> bool { c.wf() ==> r == (if c.t() { b } else { a }) }
+    #[verifier::external_body]
+    fn conditional_select(a: &u32, b: &u32, choice: Choice) -> (r: u32)
+    { if choice.0 == 1 { *b } else { *a } }
+}
+/// subtle: `trait ConstantTimeGreater { fn ct_gt(&self, other: &Self) -> Choice; }` (+ `*_req` / `*_ens`, see l7_traits.rs)
+pub trait ConstantTimeGreater {
+    spec fn ct_gt_req(&self, other: &Self) -> bool;
+    spec fn ct_gt_ens(&self, other: &Self, r: Choice) -> bool;
+    fn ct_gt(&self, other: &Self) -> (r: Choice)
+        requires self.ct_gt_req(other)
+        ensures self.ct_gt_ens(other, r);
+}
+/// subtle: `trait ConstantTimeLess: ConstantTimeEq + ConstantTimeGreater { fn ct_lt(&self, other: &Self) -> Choice { .. } }`
+pub trait ConstantTimeLess {
+    spec fn ct_lt_req(&self, other: &Self) -> bool;
+    spec fn ct_lt_ens(&self, other: &Self, r: Choice) -> bool;
+    fn ct_lt(&self, other: &Self) -> (r: Choice)
+        requires self.ct_lt_req(other)
+        ensures self.ct_lt_ens(other, r);
+}
+// subtle: `generate_unsigned_integer_greater!` / default `ct_lt` for u32: 1 iff self > other / self < other
+impl ConstantTimeGreater for u32 {
+    open spec fn ct_gt_req(&self, other: &u32) -> bool { true }
+    open spec fn ct_gt_ens(&self, other: &u32, r: Choice) -> bool { r.wf() && r.t() == (*self > *other) }
+    #[verifier::external_body]
+    fn ct_gt(&self, other: &u32) -> (r: Choice)
+    { Choice((*self > *other) as u8) }
+}
+impl ConstantTimeLess for u32 {
+    open spec fn ct_lt_req(&self, other: &u32) -> bool { true }
+    open spec fn ct_lt_ens(&self, other: &u32, r: Choice) -> bool { r.wf() && r.t() == (*self < *other) }
+    #[verifier::external_body]
+    fn ct_lt(&self, other: &u32) -> (r: Choice)
+    { Choice((*self < *other) as u8) }
+}
+// subtle: `impl ConstantTimeEq for u32`
+impl ConstantTimeEq for u32 {
+    #[verifier::external_body]
+    fn ct_eq(&self, other: &u32) -> (r: Choice)
+        ensures r.wf(), r.t() == (*self == *other)
+    { Choice((*self == *other) as u8) }
+}
+
+// ------------------------------------------------------------------------------------------------
+// crate traits (/repo/src/traits.rs), hand-declared (trait declarations are not extracted; `*_req` / `*_ens`: l7_traits.rs)
+// ------------------------------------------------------------------------------------------------
+/// `ConstantTimeSelect` of /repo/src/traits.rs (`ct_select` only: a region emits one `impl` block per method, so only one
+/// method per trait can be brought in; `ct_assign` is declared in l8_boxed_invmod.rs)
+pub trait ConstantTimeSelect: Clone {
+    spec fn ct_select_req(a: &Self, b: &Self, choice: Choice) -> bool;
+    spec fn ct_select_ens(a: &Self, b: &Self, choice: Choice, r: Self) -> bool;
+    fn ct_select(a: &Self, b: &Self, choice: Choice) -> (r: Self)
+        requires Self::ct_select_req(a, b, choice)
+        ensures Self::ct_select_ens(a, b, choice, r);
+}
+pub trait SquareRoot: Sized {
+    spec fn sqrt_req(&self) -> bool;
+    spec fn sqrt_ens(&self, r: Self) -> bool;
+    fn sqrt(&self) -> (r: Self)
+        requires self.sqrt_req()
+        ensures self.sqrt_ens(r);
+}
+
+// ------------------------------------------------------------------------------------------------
+// integer square root: Newton iteration lemmas and the Hast bound (copied verbatim from l4_sqrt.rs, where they are private;
+// BITS = 64 * nlimbs). `is_isqrt` is the pub definition of l4_sqrt.rs.
+// ------------------------------------------------------------------------------------------------
+/// one (zero-masked) Newton step
+spec fn nstep(n: int, x: int) -> int { if x == 0 { 0 } else { (x + n / x) / 2 } }
+
+spec fn isqrt(n: int) -> int { choose|s: int| is_isqrt(n, s) }
+
+/// T_i = 2^(2^i)
+spec fn tt(i: nat) -> int { p2(pow2(i)) }
+
+/// potential of the constant-time iteration (error e = x_i - isqrt(n) before round i):
+/// either the error is already <= 1 (absorbing), or (e - 2)·T_i <= H with the two explicit start-up rounds.
+spec fn sqrt_pot(i: nat, e: int, s: int, h: int, lg: nat) -> bool {
+    0 <= e && (e <= 1 || (s >= 2 && i <= lg && (i == 0 ==> 2 * e <= h) && (i == 1 ==> 4 * e <= h + 4) && (i >= 2 ==> (e - 2) * tt(i) <= h)))
+}
+
+proof fn lemma_isqrt_unique(n: int, s: int, t: int)
+    requires is_isqrt(n, s), is_isqrt(n, t)
+    ensures s == t
+{
+    if s < t { assert((s + 1) * (s + 1) <= t * t) by (nonlinear_arith) requires 0 <= s + 1 <= t; }
+    if t < s { assert((t + 1) * (t + 1) <= s * s) by (nonlinear_arith) requires 0 <= t + 1 <= s; }
+}
+
+proof fn lemma_isqrt_exists(n: int)
+    requires n >= 0
+    ensures is_isqrt(n, isqrt(n))
+    decreases n
+{
+    if n == 0 { assert(is_isqrt(0, 0)); }
+    else {
+        lemma_isqrt_exists(n - 1);
+        let s = isqrt(n - 1);
+        if (s + 1) * (s + 1) <= n {
+            assert((s + 1) * (s + 1) < (s + 2) * (s + 2)) by (nonlinear_arith) requires s >= 0;
+            assert(is_isqrt(n, s + 1));
+        } else {
+            assert(is_isqrt(n, s));
+        }
+    }
+}
+
+/// AM-GM: one Newton step from any y >= 1 lands strictly above sqrt(n) - 1
+proof fn lemma_newton_above(n: int, y: int)
+    requires y >= 1, n >= 0
+    ensures ((y + n / y) / 2 + 1) * ((y + n / y) / 2 + 1) > n, n / y >= 0
+{
+    let q = n / y;
+    lemma_fundamental_div_mod(n, y); lemma_mod_bound(n, y);
+    assert(y * q == q * y) by (nonlinear_arith);
+    assert(n < (q + 1) * y) by (nonlinear_arith) requires n == q * y + n % y, n % y < y;
+    let z = (y + q) / 2;
+    lemma_fundamental_div_mod(y + q, 2);
+    assert(2 * (z + 1) >= y + q + 1);
+    assert((y + q + 1) * (y + q + 1) >= 4 * (y * (q + 1))) by (nonlinear_arith);
+    assert(q >= 0) by { lemma_div_pos_is_pos(n, y); }
+    assert((2 * (z + 1)) * (2 * (z + 1)) >= (y + q + 1) * (y + q + 1)) by (nonlinear_arith) requires 2 * (z + 1) >= y + q + 1, y + q + 1 >= 0;
+    assert((2 * (z + 1)) * (2 * (z + 1)) == 4 * ((z + 1) * (z + 1))) by (nonlinear_arith);
+    assert((q + 1) * y == y * (q + 1)) by (nonlinear_arith);
+    assert((z + 1) * (z + 1) > n);
+}
+
+/// Newton step from above stays above: y >= 1  ==>  (y + n/y)/2 >= isqrt(n)
+proof fn lemma_newton_ge(n: int, s: int, y: int)
+    requires is_isqrt(n, s), y >= 1, n >= 0
+    ensures (y + n / y) / 2 >= s
+{
+    lemma_newton_above(n, y);
+    let z = (y + n / y) / 2;
+    if z + 1 <= s {
+        lemma_div_pos_is_pos(n, y);
+        assert((z + 1) * (z + 1) <= s * s) by (nonlinear_arith) requires 0 <= z + 1 <= s;
+    }
+}
+
+/// fix-point test: y >= 1 and next >= y  ==>  y*y <= n
+proof fn lemma_newton_fix(n: int, y: int)
+    requires y >= 1, n >= 0, (y + n / y) / 2 >= y
+    ensures y * y <= n
+{
+    let q = n / y;
+    lemma_fundamental_div_mod(n, y); lemma_mod_bound(n, y);
+    lemma_fundamental_div_mod(y + q, 2);
+    assert(q >= y);
+    assert(y * q == q * y) by (nonlinear_arith);
+    assert(q * y >= y * y) by (nonlinear_arith) requires q >= y, y >= 1;
+}
+
+/// combined: y >= s, y >= 1, next >= y  ==>  y == s
+proof fn lemma_newton_stop(n: int, s: int, y: int)
+    requires is_isqrt(n, s), y >= 1, y >= s, n >= 0, (y + n / y) / 2 >= y
+    ensures y == s
+{
+    lemma_newton_fix(n, y);
+    if y > s { assert((s + 1) * (s + 1) <= y * y) by (nonlinear_arith) requires 0 <= s + 1 <= y; }
+}
+
+/// strict descent otherwise: y > s  ==>  next < y
+proof fn lemma_newton_descends(n: int, s: int, y: int)
+    requires is_isqrt(n, s), y > s, n >= 0
+    ensures (y + n / y) / 2 < y
+{
+    if (y + n / y) / 2 >= y { lemma_newton_stop(n, s, y); }
+}
+
+/// from s itself the next value is s or s+1 (oscillation)
+proof fn lemma_newton_from_s(n: int, s: int)
+    requires is_isqrt(n, s), s >= 1
+    ensures s <= (s + n / s) / 2 <= s + 1
+{
+    lemma_newton_ge(n, s, s);
+    let q = n / s;
+    lemma_fundamental_div_mod(n, s); lemma_mod_bound(n, s);
+    assert(s * q == q * s) by (nonlinear_arith);
+    assert((s + 1) * (s + 1) == s * s + 2 * s + 1) by (nonlinear_arith);
+    assert(q <= s + 2) by (nonlinear_arith) requires q * s <= n, n < s * s + 2 * s + 1, s >= 1;
+    lemma_fundamental_div_mod(s + q, 2);
+}
+
+/// (*) error recurrence: x = s + e, x' = (x + n/x)/2 = s + e'  ==>  2(s+e)e' <= e^2 + 2s
+proof fn lemma_newton_error(n: int, s: int, x: int)
+    requires is_isqrt(n, s), x >= 1, x >= s, n >= 0
+    ensures 2 * x * ((x + n / x) / 2 - s) <= (x - s) * (x - s) + 2 * s
+{
+    let q = n / x; let xn = (x + q) / 2;
+    lemma_fundamental_div_mod(n, x); lemma_mod_bound(n, x);
+    lemma_fundamental_div_mod(x + q, 2);
+    assert(x * q == q * x) by (nonlinear_arith);
+    assert(q * x <= n);
+    assert(2 * xn <= x + q);
+    assert(2 * x * xn <= x * x + q * x) by (nonlinear_arith) requires 2 * xn <= x + q, x >= 1;
+    assert((s + 1) * (s + 1) == s * s + 2 * s + 1) by (nonlinear_arith);
+    assert(2 * x * (xn - s) == 2 * x * xn - 2 * x * s) by (nonlinear_arith);
+    assert((x - s) * (x - s) == x * x - 2 * x * s + s * s) by (nonlinear_arith);
+}
+
+/// endgame: e <= 3 and s >= 2 ==> e' <= 1
+proof fn lemma_newton_endgame(n: int, s: int, x: int)
+    requires is_isqrt(n, s), x >= s, s >= 2, n >= 0, x - s <= 3
+    ensures 0 <= (x + n / x) / 2 - s <= 1
+{
+    lemma_newton_error(n, s, x);
+    lemma_newton_ge(n, s, x);
+    let e = x - s; let ep = (x + n / x) / 2 - s;
+    assert(e * e <= 9) by (nonlinear_arith) requires 0 <= e <= 3;
+    assert(ep <= 1) by (nonlinear_arith) requires 2 * x * ep <= e * e + 2 * s, e * e <= 9, x == s + e, s >= 2, e >= 0, ep >= 0;
+}
+
+/// the pair {s, s+1} is absorbing, and from s+1 the step goes to s  (zero-masked step; covers n == 0)
+proof fn lemma_nstep_stay(n: int, s: int, x: int)
+    requires is_isqrt(n, s), n >= 0, s <= x <= s + 1
+    ensures s <= nstep(n, x) <= s + 1, x == s + 1 ==> nstep(n, x) == s
+{
+    if s == 0 {
+        assert((s + 1) * (s + 1) == 1) by (nonlinear_arith) requires s == 0;
+        assert(n == 0);
+        if x == 1 { assert(0int / 1 == 0); }
+    } else if x == s {
+        lemma_newton_from_s(n, s);
+    } else {
+        lemma_newton_descends(n, s, x);
+        lemma_newton_ge(n, s, x);
+    }
+}
+
+/// quotient bound that keeps `x + n/x` inside the width: (x+1)^2 > n  ==>  n/x <= x + 2
+proof fn lemma_q_bound(n: int, x: int)
+    requires x >= 1, n >= 0, (x + 1) * (x + 1) > n
+    ensures 0 <= n / x <= x + 2
+{
+    let q = n / x;
+    lemma_fundamental_div_mod(n, x); lemma_mod_bound(n, x);
+    lemma_div_pos_is_pos(n, x);
+    assert(x * q == q * x) by (nonlinear_arith);
+    assert((x + 1) * (x + 1) == x * x + 2 * x + 1) by (nonlinear_arith);
+    assert(q <= x + 2) by (nonlinear_arith) requires q * x <= n, n < x * x + 2 * x + 1, x >= 1;
+}
+
+/// H·(e' - 1) <= e^2 for any H <= 2s   (from (*))
+proof fn lemma_err_h(n: int, s: int, h: int, x: int)
+    requires is_isqrt(n, s), x >= 1, x >= s, n >= 0, 0 < h <= 2 * s
+    ensures ((x + n / x) / 2 - s - 1) * h <= (x - s) * (x - s), (x + n / x) / 2 >= s
+{
+    lemma_newton_error(n, s, x);
+    lemma_newton_ge(n, s, x);
+    let e = x - s; let ep = (x + n / x) / 2 - s;
+    assert(2 * s * (ep - 1) <= e * e) by (nonlinear_arith) requires 2 * x * ep <= e * e + 2 * s, x == s + e, e >= 0, ep >= 0;
+    assert(e * e >= 0) by (nonlinear_arith);
+    if ep >= 1 {
+        assert((ep - 1) * h <= 2 * s * (ep - 1)) by (nonlinear_arith) requires ep - 1 >= 0, h <= 2 * s;
+    } else {
+        assert((ep - 1) * h <= 0) by (nonlinear_arith) requires ep - 1 <= 0, h > 0;
+    }
+}
+
+/// start-up round 0: 2e <= H  ==>  4e' <= H + 4
+proof fn lemma_pot0(e: int, ep: int, h: int)
+    requires 0 <= e, 2 * e <= h, (ep - 1) * h <= e * e, h > 0
+    ensures 4 * ep <= h + 4
+{
+    assert(4 * (e * e) <= h * h) by (nonlinear_arith) requires 0 <= 2 * e <= h;
+    assert((4 * (ep - 1)) * h <= h * h) by (nonlinear_arith) requires (ep - 1) * h <= e * e, 4 * (e * e) <= h * h;
+    if 4 * (ep - 1) > h { assert((4 * (ep - 1)) * h > h * h) by (nonlinear_arith) requires 4 * (ep - 1) > h, h > 0; }
+}
+
+/// start-up round 1: 4e <= H + 4  ==>  (e' - 2)·16 <= H
+proof fn lemma_pot1(e: int, ep: int, h: int)
+    requires 0 <= e, 4 * e <= h + 4, (ep - 1) * h <= e * e, h >= 2
+    ensures (ep - 2) * 16 <= h
+{
+    assert(16 * (e * e) <= (h + 4) * (h + 4)) by (nonlinear_arith) requires 0 <= 4 * e <= h + 4;
+    assert((h + 4) * (h + 4) == h * h + 8 * h + 16) by (nonlinear_arith);
+    assert(16 * ((ep - 1) * h) <= h * h + 8 * h + 16);
+    assert(16 * ((ep - 1) * h) == (16 * (ep - 2)) * h + 16 * h) by (nonlinear_arith);
+    assert((16 * (ep - 2)) * h <= h * h);
+    if 16 * (ep - 2) > h { assert((16 * (ep - 2)) * h > h * h) by (nonlinear_arith) requires 16 * (ep - 2) > h, h > 0; }
+}
+
+/// quadratic round: (e - 2)·T <= H  ==>  (e' - 2)·T^2 <= H      (T >= 8, H >= 8: 4/T + 4/H <= 1)
+proof fn lemma_pot_sq(e: int, ep: int, h: int, t: int)
+    requires 0 <= e, (e - 2) * t <= h, (ep - 1) * h <= e * e, h >= 8, t >= 8
+    ensures (ep - 2) * (t * t) <= h
+{
+    let et = e * t;
+    assert((e - 2) * t == et - 2 * t) by (nonlinear_arith) requires et == e * t;
+    assert(0 <= et) by (nonlinear_arith) requires et == e * t, e >= 0, t >= 8;
+    let m = 2 * t + h;
+    assert(et * et <= m * m) by (nonlinear_arith) requires 0 <= et <= m;
+    assert(m * m == 4 * (t * t) + 4 * (t * h) + h * h) by (nonlinear_arith) requires m == 2 * t + h;
+    let tt_ = t * t;
+    assert(tt_ >= 0) by (nonlinear_arith) requires tt_ == t * t;
+    assert(et * et == (e * e) * tt_) by (nonlinear_arith) requires et == e * t, tt_ == t * t;
+    assert(((ep - 1) * h) * tt_ <= (e * e) * tt_) by (nonlinear_arith) requires (ep - 1) * h <= e * e, tt_ >= 0;
+    // 4T^2 + 4TH <= H T^2
+    assert(8 * tt_ <= h * tt_) by (nonlinear_arith) requires h >= 8, tt_ >= 0;
+    let th = t * h;
+    assert(8 * th <= h * tt_) by (nonlinear_arith) requires th == t * h, tt_ == t * t, t >= 8, h >= 8;
+    assert(4 * tt_ + 4 * th <= h * tt_);
+    let g = (ep - 2) * tt_;
+    assert(((ep - 1) * h) * tt_ == g * h + h * tt_) by (nonlinear_arith) requires g == (ep - 2) * tt_;
+    assert(g * h <= h * h);
+    if g > h { assert(g * h > h * h) by (nonlinear_arith) requires g > h, h > 0; }
+}
+
+proof fn lemma_tt(i: nat)
+    ensures tt(i + 1) == tt(i) * tt(i), tt(0) == 2, tt(1) == 4, tt(2) == 16, tt(i) >= 2, i >= 2 ==> tt(i) >= 16
+    decreases i
+{
+    lemma2_to64();
+    lemma_pow2_unfold(i + 1);
+    lemma_pow2_adds(pow2(i), pow2(i));
+    assert(pow2(1) == 2 && pow2(2) == 4 && pow2(0) == 1 && pow2(4) == 16);
+    if i > 0 {
+        lemma_tt((i - 1) as nat);
+        assert(tt(i) == tt((i - 1) as nat) * tt((i - 1) as nat));
+        let a = tt((i - 1) as nat);
+        assert(a * a >= 2) by (nonlinear_arith) requires a >= 2;
+        if i >= 3 { assert(a * a >= 16) by (nonlinear_arith) requires a >= 16; }
+        if i == 2 { assert(tt(1) == 4); assert(a * a == 16) by (nonlinear_arith) requires a == 4; }
+    }
+}
+
+/// T_i > 2^k as soon as 2^i > k
+proof fn lemma_tt_big(i: nat, lg: nat, k: nat)
+    requires i >= lg, k < pow2(lg)
+    ensures tt(i) >= 2 * p2(k)
+{
+    if i > lg { lemma_pow2_strictly_increases(lg, i); }
+    assert(pow2(i) >= k + 1);
+    if pow2(i) > k + 1 { lemma_pow2_strictly_increases(k + 1, pow2(i)); }
+    lemma_pow2_unfold(k + 1);
+}
+
+/// the iterates stay in [s, H]
+proof fn lemma_nstep_range(n: int, s: int, h: int, x: int)
+    requires is_isqrt(n, s), n >= 0, s < h, s <= x <= h
+    ensures s <= nstep(n, x) <= h
+{
+    if x <= s + 1 { lemma_nstep_stay(n, s, x); }
+    else { lemma_newton_descends(n, s, x); lemma_newton_ge(n, s, x); }
+}
+
+/// one round of the constant-time iteration preserves the potential
+proof fn lemma_pot_step(n: int, s: int, h: int, lg: nat, i: nat, x: int)
+    requires is_isqrt(n, s), n >= 0, h >= 1, n >= 1 ==> h <= 2 * s, s < h, s <= x <= h, tt(lg) >= 2 * h, lg >= 2,
+        sqrt_pot(i, x - s, s, h, lg)
+    ensures sqrt_pot(i + 1, nstep(n, x) - s, s, h, lg), s <= nstep(n, x) <= h
+{
+    let e = x - s; let xn = nstep(n, x); let en = xn - s;
+    lemma_nstep_range(n, s, h, x);
+    if e <= 1 {
+        lemma_nstep_stay(n, s, x);
+    } else {
+        assert(s >= 2 && x >= 1);
+        assert(n >= 1) by { assert(s * s >= 1) by (nonlinear_arith) requires s >= 2; }
+        lemma_newton_ge(n, s, x);
+        if e <= 3 {
+            lemma_newton_endgame(n, s, x);
+        } else {
+            lemma_err_h(n, s, h, x);
+            lemma_tt(i);
+            if i == 0 {
+                lemma_pot0(e, en, h);
+            } else if i == 1 {
+                lemma_pot1(e, en, h);
+            } else {
+                let t = tt(i);
+                assert(2 * t <= (e - 2) * t) by (nonlinear_arith) requires e >= 4, t >= 16;
+                if i == lg { assert(false); }
+                lemma_pot_sq(e, en, h, t);
+            }
+        }
+    }
+}
+
+/// initial guess H = 2^ceil(bits/2): fits the width with 3 bits to spare, H^2 > n, (H/2)^2 <= n
+proof fn lemma_sqrt_init(n: int, b: nat, k: nat, limbs: nat)
+    requires n >= 0, n < p2(b), b > 0 ==> n >= p2((b - 1) as nat), b == 0 ==> n == 0, k == (b + 1) / 2, b <= 64 * limbs, limbs >= 1
+    ensures k + 3 <= 64 * limbs, k <= 32 * limbs, 8 * p2(k) <= bp(limbs), p2(k) >= 1, p2(k) * p2(k) > n,
+        n >= 1 ==> k >= 1 && p2(k) == 2 * p2((k - 1) as nat) && p2((k - 1) as nat) * p2((k - 1) as nat) <= n
+{
+    lemma_bp_pow2(limbs);
+    lemma_pow2_pos(k);
+    lemma2_to64();
+    lemma_pow2_adds(k, 3);
+    if k + 3 < 64 * limbs { lemma_pow2_strictly_increases(k + 3, 64 * limbs); }
+    lemma_pow2_adds(k, k);
+    if b < 2 * k { lemma_pow2_strictly_increases(b, 2 * k); }
+    if n >= 1 {
+        assert(b >= 1);
+        let k1 = (k - 1) as nat;
+        lemma_pow2_unfold(k);
+        lemma_pow2_adds(k1, k1);
+        if 2 * k1 < b - 1 { lemma_pow2_strictly_increases(2 * k1, (b - 1) as nat); }
+    }
+}
+
+/// what the callers need to know about the initial guess x_0 = 1 << ((bits + 1) >> 1)
+spec fn sqrt_init_a(n: int, b: nat, limbs: nat) -> bool {
+    let k = (b + 1) / 2; let h = p2(k);
+    k < 64 * limbs && 8 * h <= bp(limbs) && h >= 1 && (1 * h) % bp(limbs) == h && h * h > n && (h + 1) * (h + 1) > n
+        && (n == 0 ==> h == 1)
+}
+spec fn sqrt_init_b(n: int, b: nat, lg: nat) -> bool {
+    let k = (b + 1) / 2; let h = p2(k);
+    isqrt(n) < h && (n >= 1 ==> h <= 2 * isqrt(n)) && tt(lg) >= 2 * h
+}
+spec fn bits_post(n: int, b: nat, limbs: nat) -> bool {
+    b <= 64 * limbs && (b == 0) == (n == 0) && n < p2(b) && (b > 0 ==> n >= p2((b - 1) as nat))
+}
+
+proof fn lemma_sqrt_init_a(n: int, b: nat, limbs: nat)
+    requires n >= 0, limbs >= 1, bits_post(n, b, limbs)
+    ensures sqrt_init_a(n, b, limbs)
+{
+    let k = (b + 1) / 2; let h = p2(k);
+    lemma_sqrt_init(n, b, k, limbs);
+    assert(1 * h == h);
+    lemma_small_mod(h as nat, bp(limbs) as nat);
+    assert((h + 1) * (h + 1) > h * h) by (nonlinear_arith) requires h >= 1;
+    if n == 0 { assert(k == 0); lemma2_to64(); }
+}
+
+
+proof fn lemma_sqrt_init_b(n: int, b: nat, limbs: nat, lg: nat)
+    requires n >= 0, limbs >= 1, bits_post(n, b, limbs), 64 * limbs < pow2(lg + 1)
+    ensures sqrt_init_b(n, b, lg)
+{
+    let k = (b + 1) / 2; let h = p2(k); let s = isqrt(n);
+    lemma_sqrt_init(n, b, k, limbs);
+    lemma_isqrt_exists(n);
+    if s >= h { assert(s * s >= h * h) by (nonlinear_arith) requires s >= h, h >= 1; }
+    if n >= 1 {
+        let h1 = p2((k - 1) as nat);
+        if h1 > s { assert(h1 * h1 >= (s + 1) * (s + 1)) by (nonlinear_arith) requires h1 >= s + 1, s >= 0; }
+    }
+    lemma_pow2_unfold(lg + 1);
+    assert(k < pow2(lg));
+    lemma_tt_big(lg, lg, k);
+}
+
+/// bridge from the potential at round LOG2_BITS + 1 to the result: min(x_prev, x) is the root
+proof fn lemma_sqrt_final(n: int, s: int, h: int, lg: nat, xp: int, x: int)
+    requires is_isqrt(n, s), n >= 0, s <= xp, sqrt_pot(lg + 1, xp - s, s, h, lg), x == nstep(n, xp)
+    ensures (if xp > x { x } else { xp }) == s
+{
+    lemma_nstep_stay(n, s, xp);
+}
+
+
+//@@ fn src/uint/boxed.rs | impl BoxedUint | nlimbs | body | props C15 C11
+impl BoxedUint {
+pub fn nlimbs(&self) -> (ret__: usize)
 //@+
-    spec fn bp_spec(&self) -> u32;
-    fn bits_precision(&self) -> (r: u32)
-        ensures r == self.bp_spec();
-//@-
-pub fn log2_bits(&self) -> (ret__: u32)
-//@+
-    requires self.bp_spec() >= 1
-    ensures pow2(ret__ as nat) <= self.bp_spec() < pow2((ret__ + 1) as nat)
+    ensures ret__ == self.limbs@.len()
 //@-
 {
+        self.limbs.len()
+    }
+}
+//@@ end
+//@@ fn src/uint/boxed/bits.rs | impl BoxedUint | bits_precision | body | props C15 C05 C11
+impl BoxedUint {
+pub fn bits_precision(&self) -> (ret__: u32)
+//@+
+    requires self.limbs@.len() < 0x400_0000
+    ensures ret__ as int == 64 * self.limbs@.len()
+//@-
+{
+//@+
+    proof { assert((self.limbs@.len() as u32) as int == self.limbs@.len()); }
+//@-
+        self.limbs.len() as u32 * Limb::BITS
+    }
+}
+//@@ end
+//@@ fn src/uint/boxed.rs | impl BoxedUint | zero_with_precision | stub | props C15 C11
+impl BoxedUint {
+#[verifier::external_body]
+pub fn zero_with_precision(at_least_bits_precision: u32) -> (ret__: Self)
+//@+
+    ensures ret__.nl() == nlimbs_for(at_least_bits_precision), ret__.v() == 0,
+        forall|k: int| 0 <= k < ret__.limbs@.len() ==> ret__.limbs@[k].0 == 0
+//@-
+{
+    unimplemented!()
+}
+}
+//@@ end
+//@@ fn src/uint/boxed.rs | impl BoxedUint | one_with_precision | body | props C15 C11
+impl BoxedUint {
+pub fn one_with_precision(at_least_bits_precision: u32) -> (ret__: Self)
+//@+
+    ensures ret__.nl() == nlimbs_for(at_least_bits_precision), ret__.v() == 1
+//@-
+{
+        let mut ret = Self::zero_with_precision(at_least_bits_precision);
+        ret.limbs[0] = Limb::ONE;
+//@+
+    proof { lemma_val_single(ret.limbs@, ret.limbs@.len()); }
+//@-
+        ret
+    }
+}
+//@@ end
+//@@ fn src/uint/boxed.rs | impl BoxedUint | is_zero | stub | props C06 C11
+impl BoxedUint {
+#[verifier::external_body]
+pub fn is_zero(&self) -> (ret__: Choice)
+//@+
+    ensures ret__.wf(), ret__.t() == (self.v() == 0)
+//@-
+{
+    unimplemented!()
+}
+}
+//@@ end
+//@@ fn src/uint/boxed.rs | impl BoxedUint | is_nonzero | body | props C06 C11
+impl BoxedUint {
+pub fn is_nonzero(&self) -> (ret__: Choice)
+//@+
+    ensures ret__.wf(), ret__.t() == (self.v() != 0)
+//@-
+{
+//@+
+    proof { let z = Choice(if self.v() == 0 { 1u8 } else { 0u8 }); lemma_choice_ops(z, z); }
+//@-
+        !self.is_zero()
+    }
+}
+//@@ end
+//@@ fn src/uint/boxed/bits.rs | impl BoxedUint | leading_zeros | body | props C05 C11
+impl BoxedUint {
+pub const fn leading_zeros(&self) -> (ret__: u32)
+//@+
+    requires self.limbs@.len() < 0x400_0000
+    ensures ret__ as int <= 64 * self.nl(), (ret__ as int == 64 * self.nl()) == (self.v() == 0),
+        self.v() < p2((64 * self.nl() - ret__) as nat),
+        (ret__ as int) < 64 * self.nl() ==> self.v() >= p2((64 * self.nl() - ret__ - 1) as nat)
+//@-
+{
+        leading_zeros(&self.limbs)
+    }
+}
+//@@ end
+//@@ fn src/uint/boxed/bits.rs | impl BoxedUint | bits | body | props C05 C11
+impl BoxedUint {
+pub fn bits(&self) -> (ret__: u32)
+//@+
+    requires self.limbs@.len() < 0x400_0000
+    ensures ret__ as int <= 64 * self.nl(), (ret__ == 0) == (self.v() == 0), self.v() < p2(ret__ as nat),
+        ret__ > 0 ==> self.v() >= p2((ret__ - 1) as nat)
+//@-
+{
+        self.bits_precision() - self.leading_zeros()
+    }
+}
+//@@ end
+//@@ fn src/uint/boxed/bits.rs | impl BoxedUint | bits_vartime | body | props C05 C11 C15
+impl BoxedUint {
+pub fn bits_vartime(&self) -> (ret__: u32)
+//@+
+    requires self.wf()
+    ensures ret__ as int <= 64 * self.nl(), (ret__ == 0) == (self.v() == 0), self.v() < p2(ret__ as nat),
+        ret__ > 0 ==> self.v() >= p2((ret__ - 1) as nat)
+//@-
+{
+        bits_vartime(&self.limbs)
+    }
+}
+//@@ end
+//@@ fn src/uint/boxed/shl.rs | impl BoxedUint | overflowing_shl_assign | stub | props C05 C11
+impl BoxedUint {
+#[verifier::external_body]
+pub fn overflowing_shl_assign(&mut self, shift: u32) -> (ret__: Choice)
+//@+
+    requires old(self).wf()
+    ensures final(self).nl() == old(self).nl(), ret__.wf(), ret__.t() == (shift as int >= 64 * old(self).nl()),
+        final(self).v() == (if shift as int >= 64 * old(self).nl() { 0 } else { (old(self).v() * p2(shift as nat)) % bp(old(self).nl()) })
+//@-
+{
+    unimplemented!()
+}
+}
+//@@ end
+//@@ fn src/uint/boxed/shl.rs | impl BoxedUint | overflowing_shl | body | props C05 C11 C15
+impl BoxedUint {
+pub fn overflowing_shl(&self, shift: u32) -> (ret__: (Self, Choice))
+//@+
+    requires self.wf()
+    ensures ret__.0.nl() == self.nl(), ret__.1.wf(), ret__.1.t() == (shift as int >= 64 * self.nl()),
+        ret__.0.v() == (if shift as int >= 64 * self.nl() { 0 } else { (self.v() * p2(shift as nat)) % bp(self.nl()) })
+//@-
+{
+        let mut result = self.clone();
+        let overflow = result.overflowing_shl_assign(shift);
+        (result, overflow)
+    }
+}
+//@@ end
+//@@ fn src/uint/boxed/add.rs | impl BoxedUint | adc | stub | props C04 C11 C15
+impl BoxedUint {
+#[verifier::external_body]
+pub fn adc(&self, rhs: &Self, carry: Limb) -> (ret__: (Self, Limb))
+//@+
+    requires self.nl() >= 1 || rhs.nl() >= 1
+    ensures ret__.0.nl() == max_nat(self.nl(), rhs.nl()),
+        ret__.0.v() + ret__.1.0 as int * bp(ret__.0.nl()) == self.v() + rhs.v() + carry.0 as int,
+        ret__.0.v() == (self.v() + rhs.v() + carry.0 as int) % bp(ret__.0.nl()),
+        carry.0 <= 1 ==> ret__.1.0 <= 1
+//@-
+{
+    unimplemented!()
+}
+}
+//@@ end
+//@@ fn src/uint/boxed/add.rs | impl BoxedUint | wrapping_add | body | props C04 C11 C15
+impl BoxedUint {
+pub fn wrapping_add(&self, rhs: &Self) -> (ret__: Self)
+//@+
+    requires self.nl() >= 1 || rhs.nl() >= 1
+    ensures ret__.nl() == max_nat(self.nl(), rhs.nl()), ret__.v() == (self.v() + rhs.v()) % bp(ret__.nl())
+//@-
+{
+//@+
+    proof { lemma_rng(self); lemma_rng(rhs); }
+//@-
+        self.adc(rhs, Limb::ZERO).0
+    }
+}
+//@@ end
+impl vstd::std_specs::ops::BitAndSpecImpl<Limb> for Limb {
+    open spec fn obeys_bitand_spec() -> bool { true }
+    open spec fn bitand_req(self, rhs: Limb) -> bool { true }
+    open spec fn bitand_spec(self, rhs: Limb) -> Limb { Limb(self.0 & rhs.0) }
+}
+//@@ fn src/limb/bit_and.rs | impl BitAnd for Limb | bitand | body | props C05 C11
+impl BitAnd for Limb {
+//@+
+    type Output = Limb;
+//@-
+fn bitand(self, rhs: Self) -> (ret__: Self::Output)
+//@+
+    ensures ret__.0 == self.0 & rhs.0
+//@-
+{
+        self.bitand(rhs)
+    }
+}
+//@@ end
+//@@ fn src/uint/boxed/add.rs | impl BoxedUint | conditional_adc_assign | body | props C04 C11
+impl BoxedUint {
+pub fn conditional_adc_assign(&mut self, rhs: &Self, choice: Choice) -> (ret__: Choice)
+//@+
+    requires old(self).limbs@.len() <= rhs.limbs@.len() < 0x400_0000, choice.wf()
+    ensures final(self).nl() == old(self).nl(), ret__.wf(),
+        final(self).v() + (if ret__.t() { bp(old(self).nl()) } else { 0 })
+            == old(self).v() + (if choice.t() { val(rhs.limbs@, old(self).nl()) } else { 0 })
+//@-
+{
+//@+
+    let ghost s0 = self.limbs@; let ghost n = self.limbs@.len(); let ghost m: int = if choice.t() { 1 } else { 0 };
+//@-
+        debug_assert!(self.bits_precision() <= rhs.bits_precision());
+        let mask = Limb::conditional_select(&Limb::ZERO, &Limb::MAX, choice);
+        let mut carry = Limb::ZERO;
+//@+
+    proof {
+        lemma_bp_succ(0);
+        assert(m * val(rhs.limbs@, 0) == 0) by (nonlinear_arith) requires val(rhs.limbs@, 0) == 0;
+        assert(carry.0 as int * bp(0) == 0) by (nonlinear_arith) requires carry.0 == 0;
+    }
+//@-
+        for i in 0..self.nlimbs()
+//@+
+    invariant self.limbs@.len() == n, s0.len() == n, n <= rhs.limbs@.len(), VERUS_ghost_iter.iter.end == n, choice.wf(),
+        m == (if choice.t() { 1int } else { 0int }), mask.0 == (if choice.t() { u64::MAX } else { 0u64 }), carry.0 <= 1,
+        forall|k: int| VERUS_ghost_iter.index@ <= k < n ==> self.limbs@[k] == s0[k],
+        val(self.limbs@, VERUS_ghost_iter.index@ as nat) + carry.0 as int * bp(VERUS_ghost_iter.index@ as nat)
+            == val(s0, VERUS_ghost_iter.index@ as nat) + m * val(rhs.limbs@, VERUS_ghost_iter.index@ as nat),
+//@-
+{
+//@+
+    let ghost sb = self.limbs@; let ghost cb = carry.0 as int; let ghost ri = rhs.limbs@[i as int].0;
+    proof {
+        assert(ri & 0xffff_ffff_ffff_ffffu64 == ri) by (bit_vector);
+        assert(ri & 0u64 == 0u64) by (bit_vector);
+    }
+//@-
+            let masked_rhs = *rhs.limbs.get(i).unwrap_or(&Limb::ZERO) & mask;
+            let (limb, c) = self.limbs[i].adc(masked_rhs, carry);
+            self.limbs[i] = limb;
+            carry = c;
+//@+
+    proof {
+        lemma_val_ext(sb, self.limbs@, i as nat);
+        lemma_bp_succ(i as nat);
+        let pk = bp(i as nat); let x = limb.0 as int; let c1 = carry.0 as int;
+        let si = s0[i as int].0 as int; let mr = masked_rhs.0 as int; let rv = ri as int;
+        assert(mr == m * rv) by (nonlinear_arith) requires (m == 1 && mr == rv) || (m == 0 && mr == 0);
+        assert(x + c1 * B() == si + mr + cb);
+        assert(c1 <= 1) by (nonlinear_arith) requires x + c1 * B() == si + mr + cb, x >= 0, si < B(), mr < B(), cb <= 1, B() > 0;
+        assert(x * pk + c1 * (B() * pk) == si * pk + (m * rv) * pk + cb * pk) by (nonlinear_arith) requires x + c1 * B() == si + m * rv + cb;
+        assert(m * (val(rhs.limbs@, i as nat) + rv * pk) == m * val(rhs.limbs@, i as nat) + (m * rv) * pk) by (nonlinear_arith);
+    }
+//@-
+        }
+//@+
+    proof {
+        let cw = carry.0;
+        assert((cw & 1) == cw) by (bit_vector) requires cw <= 1;
+        assert(carry.0 as int * bp(n) == (if carry.0 == 1 { bp(n) } else { 0 })) by (nonlinear_arith) requires carry.0 <= 1;
+        assert(m * val(rhs.limbs@, n) == (if choice.t() { val(rhs.limbs@, n) } else { 0 })) by (nonlinear_arith) requires m == (if choice.t() { 1int } else { 0int });
+    }
+//@-
+        Choice::from((carry.0 & 1) as u8)
+    }
+}
+//@@ end
+//@@ fn src/uint/boxed/sub.rs | impl BoxedUint | sbb | stub | props C04 C11 C15
+impl BoxedUint {
+#[verifier::external_body]
+pub fn sbb(&self, rhs: &Self, borrow: Limb) -> (ret__: (Self, Limb))
+//@+
+    requires self.nl() >= 1 || rhs.nl() >= 1
+    ensures ret__.0.nl() == max_nat(self.nl(), rhs.nl()), ret__.1.0 == 0 || ret__.1.0 == u64::MAX,
+        ret__.0.v() - bb(ret__.1) * bp(ret__.0.nl()) == self.v() - rhs.v() - (borrow.0 >> 63) as int,
+        ret__.0.v() == (self.v() - rhs.v() - (borrow.0 >> 63) as int) % bp(ret__.0.nl())
+//@-
+{
+    unimplemented!()
+}
+}
+//@@ end
+//@@ fn src/uint/boxed/shr.rs | impl BoxedUint | shr1_assign | stub | props C05 C11
+impl BoxedUint {
+#[verifier::external_body]
+pub fn shr1_assign(&mut self)
+//@+
+    requires old(self).nl() >= 1
+    ensures final(self).nl() == old(self).nl(), final(self).v() == old(self).v() / 2
+//@-
+{
+    unimplemented!()
+}
+}
+//@@ end
+//@@ fn src/uint/boxed/shr.rs | impl BoxedUint | shr1 | body | props C05 C11 C15
+impl BoxedUint {
+pub fn shr1(&self) -> (ret__: Self)
+//@+
+    requires self.nl() >= 1
+    ensures ret__.nl() == self.nl(), ret__.v() == self.v() / 2
+//@-
+{
+        let mut ret = self.clone();
+        ret.shr1_assign();
+        ret
+    }
+}
+//@@ end
+//@@ fn src/uint/boxed/cmp.rs | impl BoxedUint | cmp_vartime | stub | props C06 C11
+impl BoxedUint {
+#[verifier::external_body]
+pub fn cmp_vartime(&self, rhs: &Self) -> (ret__: Ordering)
+//@+
+    // not a body: `core::cmp::max` and `Option::<&T>::copied` have no vstd specification
+    requires self.nl() >= 1 || rhs.nl() >= 1
+    ensures ret__ == (if self.v() < rhs.v() { Ordering::Less } else if self.v() == rhs.v() { Ordering::Equal } else { Ordering::Greater })
+//@-
+{
+    unimplemented!()
+}
+}
+//@@ end
+//@@ fn src/uint/boxed/cmp.rs | impl ConstantTimeEq for BoxedUint | ct_eq | stub | props C06 C11
+impl ConstantTimeEq for BoxedUint {
+#[verifier::external_body]
+fn ct_eq(&self, other: &Self) -> (ret__: Choice)
+//@+
+    ensures ret__.wf(), ret__.t() == (self.v() == other.v())
+//@-
+{
+    unimplemented!()
+}
+}
+//@@ end
+//@@ fn src/uint/boxed/cmp.rs | impl ConstantTimeGreater for BoxedUint | ct_gt | body | props C06 C11
+impl ConstantTimeGreater for BoxedUint {
+//@+
+    open spec fn ct_gt_req(&self, other: &Self) -> bool { self.nl() >= 1 || other.nl() >= 1 }
+    open spec fn ct_gt_ens(&self, other: &Self, r: Choice) -> bool { r.wf() && r.t() == (self.v() > other.v()) }
+//@-
+fn ct_gt(&self, other: &Self) -> (ret__: Choice)
+{
+//@+
+    let ghost ww = bp(max_nat(other.nl(), self.nl()));
+    assert(0u64 >> 63 == 0) by (bit_vector);
+    assert forall|u: BoxedUint| 0 <= #[trigger] u.v() < bp(u.nl()) by { lemma_rng(&u); }
+//@-
+        let (_, borrow) = other.sbb(self, Limb::ZERO);
+//@+
+    assert(bb(borrow) * ww == (if bb(borrow) == 1 { ww } else { 0 })) by (nonlinear_arith) requires bb(borrow) == 0 || bb(borrow) == 1;
+//@-
+        ConstChoice::from_word_mask(borrow.0).into()
+    }
+}
+//@@ end
+//@@ fn src/uint/boxed/ct.rs | impl ConstantTimeSelect for BoxedUint | ct_select | stub | props C06 C11 C15
+impl ConstantTimeSelect for BoxedUint {
+//@+
+    open spec fn ct_select_req(a: &Self, b: &Self, choice: Choice) -> bool { a.limbs@.len() == b.limbs@.len() && a.limbs@.len() < 0x400_0000 && choice.wf() }
+    open spec fn ct_select_ens(a: &Self, b: &Self, choice: Choice, r: Self) -> bool { r.limbs@ == (if choice.t() { b.limbs@ } else { a.limbs@ }) }
+//@-
+#[verifier::external_body]
+fn ct_select(a: &Self, b: &Self, choice: Choice) -> (ret__: Self)
+{
+    unimplemented!()
+}
+}
+//@@ end
+//@@ fn src/uint/boxed.rs | impl Zero for BoxedUint | is_zero | body | props C06 C11
+impl Zero for BoxedUint {
+//@+
+    open spec fn is_zero_req(&self) -> bool { true }
+    open spec fn is_zero_spec(&self) -> bool { self.v() == 0 }
+//@-
+fn is_zero(&self) -> (ret__: Choice)
+{
+        self.is_zero()
+    }
+}
+//@@ end
+//@@ fn src/limb.rs | impl ConditionallySelectable for Limb | conditional_select | body | props C06 C11
+impl ConditionallySelectable for Limb {
+//@+
+    open spec fn sel_ok(a: Limb, b: Limb, c: Choice, r: Limb) -> bool { c.wf() ==> r == (if c.t() { b } else { a }) }
+//@-
+fn conditional_select(a: &Self, b: &Self, choice: Choice) -> (ret__: Self)
+{
+        Self(Word::conditional_select(&a.0, &b.0, choice))
+    }
+}
+//@@ end
+//@@ fn src/uint/boxed/mul.rs | impl BoxedUint | mul | stub | props C03 C11 C15
+impl BoxedUint {
+#[verifier::external_body]
+pub fn mul(&self, rhs: &Self) -> (ret__: Self)
+//@+
+    requires self.nl() + rhs.nl() >= 1, self.nl() < 0x400_0000, rhs.nl() < 0x400_0000
+    ensures ret__.nl() == self.nl() + rhs.nl(), ret__.v() == self.v() * rhs.v()
+//@-
+{
+    unimplemented!()
+}
+}
+//@@ end
+//@@ fn src/uint/boxed.rs | impl BoxedUint | shorten | stub | props C15 C11
+impl BoxedUint {
+#[verifier::external_body]
+pub fn shorten(&self, at_least_bits_precision: u32) -> (ret__: BoxedUint)
+//@+
+    requires self.wf(), at_least_bits_precision as int <= 64 * self.nl()
+    ensures ret__.nl() == nlimbs_for(at_least_bits_precision), ret__.v() == self.v() % bp(ret__.nl()),
+        forall|k: int| 0 <= k < ret__.limbs@.len() ==> ret__.limbs@[k] == self.limbs@[k]
+//@-
+{
+    unimplemented!()
+}
+}
+//@@ end
+//@@ fn src/uint/boxed/mul.rs | impl BoxedUint | wrapping_mul | body | props C03 C11 C15
+impl BoxedUint {
+pub fn wrapping_mul(&self, rhs: &Self) -> (ret__: Self)
+//@+
+    requires self.wf(), self.nl() + rhs.nl() < 0x400_0000   // `shorten` takes bits_precision() of the (n + m)-limb product
+    ensures ret__.nl() == self.nl(), ret__.v() == (self.v() * rhs.v()) % bp(self.nl())
+//@-
+{
+//@+
+    proof { lemma_nlimbs_for(self.nl()); }
+//@-
+        self.mul(rhs).shorten(self.bits_precision())
+    }
+}
+//@@ end
+//@@ fn src/non_zero.rs | impl<T> NonZero<T> | as_ref | body | props C12 C11
+impl<T> NonZero<T> {
+pub const fn as_ref(&self) -> (ret__: &T)
+//@+
+    ensures *ret__ == self.0
+//@-
+{
+        &self.0
+    }
+}
+//@@ end
+//@@ fn src/uint/boxed/div.rs | impl BoxedUint | div_rem_unchecked | stub | props C02 C11 C15
+impl BoxedUint {
+#[verifier::external_body]
+pub fn div_rem_unchecked(&self, rhs: &Self) -> (ret__: (Self, Self))
+//@+
+    requires self.wf(), self.nl() == rhs.nl(), rhs.v() != 0
+    ensures ret__.0.nl() == self.nl(), ret__.1.nl() == self.nl(),
+        ret__.0.v() * rhs.v() + ret__.1.v() == self.v(), 0 <= ret__.1.v() < rhs.v(),
+        ret__.0.v() == self.v() / rhs.v(), ret__.1.v() == self.v() % rhs.v()
+//@-
+{
+    unimplemented!()
+}
+}
+//@@ end
+//@@ fn src/uint/boxed/div.rs | impl BoxedUint | div_rem | body | props C02 C11 C15
+impl BoxedUint {
+pub fn div_rem(&self, rhs: &NonZero<Self>) -> (ret__: (Self, Self))
+//@+
+    requires self.wf(), self.nl() == rhs.0.nl(), rhs.0.v() != 0
+    ensures ret__.0.nl() == self.nl(), ret__.1.nl() == self.nl(),
+        ret__.0.v() * rhs.0.v() + ret__.1.v() == self.v(), 0 <= ret__.1.v() < rhs.0.v(),
+        ret__.0.v() == self.v() / rhs.0.v(), ret__.1.v() == self.v() % rhs.0.v()
+//@-
+{
+        // Since `rhs` is nonzero, this should always hold.
+        self.div_rem_unchecked(rhs.as_ref())
+    }
+}
+//@@ end
+//@@ fn src/uint/boxed/div.rs | impl BoxedUint | div_rem_vartime | stub | props C02 C11 C15
+impl BoxedUint {
+#[verifier::external_body]
+pub fn div_rem_vartime(&self, rhs: &NonZero<Self>) -> (ret__: (Self, Self))
+//@+
+    requires self.wf(), rhs.0.wf(), rhs.0.v() != 0
+    ensures ret__.0.nl() == self.nl(), ret__.1.nl() == rhs.0.nl(),
+        ret__.0.v() * rhs.0.v() + ret__.1.v() == self.v(), 0 <= ret__.1.v() < rhs.0.v(),
+        ret__.0.v() == self.v() / rhs.0.v(), ret__.1.v() == self.v() % rhs.0.v()
+//@-
+{
+    unimplemented!()
+}
+}
+//@@ end
+//@@ fn src/uint/boxed/div.rs | impl BoxedUint | wrapping_div_vartime | body | props C02 C11 C15
+impl BoxedUint {
+pub fn wrapping_div_vartime(&self, rhs: &NonZero<Self>) -> (ret__: Self)
+//@+
+    requires self.wf(), rhs.0.wf(), rhs.0.v() != 0
+    ensures ret__.nl() == self.nl(), ret__.v() == self.v() / rhs.0.v()
+//@-
+{
+        self.div_rem_vartime(rhs).0
+    }
+}
+//@@ end
+//@@ fn src/traits.rs | trait BitOps | log2_bits | body | props C20 C05 C11
+trait BitOps {
+//@+
+    spec fn bits_precision_req(&self) -> bool;
+    spec fn bits_precision_spec(&self) -> u32;
+    fn bits_precision(&self) -> (r: u32)
+        requires self.bits_precision_req()
+        ensures r == self.bits_precision_spec();
+//@-
+fn log2_bits(&self) -> (ret__: u32)
+//@+
+    requires self.bits_precision_req(), self.bits_precision_spec() >= 1
+    ensures ret__ <= 31, pow2(ret__ as nat) <= self.bits_precision_spec() < pow2((ret__ + 1) as nat)
+//@-
+{
+//@+
+    proof { lemma_lz32(self.bits_precision_spec()); }
+//@-
         u32::BITS - self.bits_precision().leading_zeros() - 1
+    }
+}
+//@@ end
+//@@ fn src/uint/boxed/bits.rs | impl BitOps for BoxedUint | bits_precision | body | props C20 C05 C11
+impl BitOps for BoxedUint {
+//@+
+    spec fn bits_precision_req(&self) -> bool { self.limbs@.len() < 0x400_0000 }
+    spec fn bits_precision_spec(&self) -> u32 { (64 * self.limbs@.len()) as u32 }
+//@-
+fn bits_precision(&self) -> (ret__: u32)
+{
+        self.bits_precision()
+    }
+}
+//@@ end
+//@@ fn src/uint/boxed/sqrt.rs | impl BoxedUint | sqrt | body | props C20 C11 C15
+impl BoxedUint {
+pub fn sqrt(&self) -> (ret__: Self)
+//@+
+    requires self.wf()
+    ensures ret__.nl() == self.nl(), is_isqrt(self.v(), ret__.v())
+//@-
+{
+//@+
+    let ghost n = self.v();
+    let ghost nl = self.nl();
+    let ghost s = isqrt(n);
+    let ghost lg = log2_bits(nl as int) as nat;
+    proof { lemma_rng(self); lemma_isqrt_exists(n); lemma_log2_bits(nl as int); lemma_nlimbs_for(nl); }
+    assert forall|y: u32| #[trigger] (y >> 1) == y / 2 by { assert(y >> 1 == y / 2) by (bit_vector); }
+    assert forall|b: u32| #![trigger p2(b as nat)] bits_post(n, b as nat, nl) implies sqrt_init_a(n, b as nat, nl) && sqrt_init_b(n, b as nat, lg) by {
+        lemma_sqrt_init_a(n, b as nat, nl); lemma_sqrt_init_b(n, b as nat, nl, lg);
+    }
+    assert forall|r: nat| #![trigger pow2(r)] pow2(r) <= 64 * nl < pow2(r + 1) implies r == lg by { lemma_log2_unique(64 * nl as int, r, lg); }
+//@-
+        // Uses Brent & Zimmermann, Modern Computer Arithmetic, v0.5.9, Algorithm 1.13.
+        //
+        // See Hast, "Note on computation of integer square roots"
+        // for the proof of the sufficiency of the bound on iterations.
+        // https://github.com/RustCrypto/crypto-bigint/files/12600669/ct_sqrt.pdf
+        // The initial guess: `x_0 = 2^ceil(b/2)`, where `2^(b-1) <= self < b`.
+        // Will not overflow since `b <= BITS`.
+        let (mut x, _overflow) =
+            Self::one_with_precision(self.bits_precision()).overflowing_shl((self.bits() + 1) >> 1); // ≥ √(`self`)
+//@+
+    let ghost h = x.v();
+    assert(x.nl() == nl);
+    assert(h >= 1 && 8 * h <= bp(nl) && s < h && (n >= 1 ==> h <= 2 * s) && tt(lg) >= 2 * h && (n == 0 ==> h == 1));
+    assert(sqrt_pot(0, h - s, s, h, lg));
+//@-
+        // Repeat enough times to guarantee result has stabilized.
+        let mut i = 0;
+        let mut x_prev = x.clone(); // keep the previous iteration in case we need to roll back.
+        let mut nz_x = NonZero(x.clone());
+        // TODO (#378): the tests indicate that just `Self::LOG2_BITS` may be enough.
+        while i < self.log2_bits() + 2
+//@+
+    invariant self.wf(), nl == self.nl(), n == self.v(), n >= 0, is_isqrt(n, s), 6 <= lg <= 31,
+        forall|r: nat| #![trigger pow2(r)] pow2(r) <= 64 * nl < pow2(r + 1) ==> r == lg,
+        h >= 1, 8 * h <= bp(nl), s < h, n >= 1 ==> h <= 2 * s, tt(lg) >= 2 * h,
+        i <= lg + 2, x.nl() == nl, x_prev.nl() == nl, nz_x.0.nl() == nl, nz_x.0.v() != 0,
+        s <= x.v() <= h, sqrt_pot(i as nat, x.v() - s, s, h, lg),
+        i >= 1 ==> s <= x_prev.v() <= h && sqrt_pot((i - 1) as nat, x_prev.v() - s, s, h, lg) && x.v() == nstep(n, x_prev.v()),
+    decreases lg + 2 - i,
+//@-
+{
+//@+
+    let ghost xv = x.v();
+    let ghost nz0 = nz_x.0.limbs@;
+//@-
+            x_prev.limbs.clone_from_slice(&x.limbs);
+            // Calculate `x_{i+1} = floor((x_i + self / x_i) / 2)`
+            let x_nonzero = x.is_nonzero();
+            let mut j = 0;
+            while j < nz_x.0.limbs.len()
+//@+
+    invariant j <= nl, nz_x.0.limbs@.len() == nl, x.limbs@.len() == nl, nz0.len() == nl, x_nonzero.wf(),
+        forall|k: int| 0 <= k < j ==> nz_x.0.limbs@[k] == (if x_nonzero.t() { x.limbs@[k] } else { nz0[k] }),
+        forall|k: int| j <= k < nl ==> nz_x.0.limbs@[k] == nz0[k],
+    decreases nl - j,
+//@-
+{
+                nz_x.0.limbs[j].conditional_assign(&x.limbs[j], x_nonzero);
+                j += 1;
+            }
+//@+
+    proof {
+        if x_nonzero.t() { lemma_val_ext(nz_x.0.limbs@, x.limbs@, nl); } else { lemma_val_ext(nz_x.0.limbs@, nz0, nl); }
+        assert(nz_x.0.v() != 0);
+    }
+//@-
+            let (q, _) = self.div_rem(&nz_x);
+            x.conditional_adc_assign(&q, x_nonzero);
+            x.shr1_assign();
+//@+
+    proof {
+        lemma_rng(&x); lemma_rng(&q);
+        if xv != 0 {
+            assert((xv + 1) * (xv + 1) > n) by (nonlinear_arith) requires xv >= s, s >= 0, (s + 1) * (s + 1) > n;
+            lemma_q_bound(n, xv);
+        }
+        assert(x.v() == nstep(n, xv));
+        lemma_pot_step(n, s, h, lg, i as nat, xv);
+    }
+//@-
+            i += 1;
+        }
+        // At this point `x_prev == x_{n}` and `x == x_{n+1}`
+        // where `n == i - 1 == LOG2_BITS + 1 == floor(log2(BITS)) + 1`.
+        // Thus, according to Hast, `sqrt(self) = min(x_n, x_{n+1})`.
+//@+
+    proof { lemma_sqrt_final(n, s, h, lg, x_prev.v(), x.v()); }
+//@-
+        Self::ct_select(&x_prev, &x, Self::ct_gt(&x_prev, &x))
+    }
+}
+//@@ end
+//@@ fn src/uint/boxed/sqrt.rs | impl BoxedUint | sqrt_vartime | body | props C20 C11 C15
+impl BoxedUint {
+pub fn sqrt_vartime(&self) -> (ret__: Self)
+//@+
+    requires self.wf()
+    ensures ret__.nl() == self.nl(), is_isqrt(self.v(), ret__.v())
+//@-
+{
+//@+
+    let ghost n = self.v();
+    let ghost nl = self.nl();
+    proof { lemma_rng(self); lemma_nlimbs_for(nl); }
+    assert forall|y: u32| #[trigger] (y >> 1) == y / 2 by { assert(y >> 1 == y / 2) by (bit_vector); }
+    assert forall|b: u32| #![trigger p2(b as nat)] bits_post(n, b as nat, nl) implies sqrt_init_a(n, b as nat, nl) by { lemma_sqrt_init_a(n, b as nat, nl); }
+//@-
+        // Uses Brent & Zimmermann, Modern Computer Arithmetic, v0.5.9, Algorithm 1.13
+        // The initial guess: `x_0 = 2^ceil(b/2)`, where `2^(b-1) <= self < b`.
+        // Will not overflow since `b <= BITS`.
+        let (mut x, _overflow) =
+            Self::one_with_precision(self.bits_precision()).overflowing_shl((self.bits() + 1) >> 1); // ≥ √(`self`)
+//@+
+    assert(x.nl() == nl && x.v() >= 1 && (x.v() + 1) * (x.v() + 1) > n && 2 * x.v() + 2 < bp(nl));
+//@-
+        // Stop right away if `x` is zero to avoid divizion by zero.
+        while !x
+            .cmp_vartime(&Self::zero_with_precision(self.bits_precision()))
+            .is_eq()
+//@+
+    invariant self.wf(), nl == self.nl(), n == self.v(), n >= 0, x.nl() == nl, (x.v() + 1) * (x.v() + 1) > n, 2 * x.v() + 2 < bp(nl),
+    ensures x.nl() == nl, n >= 1 ==> is_isqrt(n, x.v()),
+    decreases x.v(),
+//@-
+{
+            // Calculate `x_{i+1} = floor((x_i + self / x_i) / 2)`
+            let q =
+                self.wrapping_div_vartime(&NonZero::<Self>::new(x.clone()).expect("Division by 0"));
+            let t = x.wrapping_add(&q);
+            let next_x = t.shr1();
+//@+
+    proof {
+        let xv = x.v();
+        lemma_rng(&x); lemma_rng(&q);
+        lemma_q_bound(n, xv);
+        lemma_small_mod((xv + n / xv) as nat, bp(nl) as nat);
+        assert(next_x.v() == (xv + n / xv) / 2);
+        if next_x.v() >= xv { lemma_newton_fix(n, xv); } else { lemma_newton_above(n, xv); }
+    }
+//@-
+            // If `next_x` is the same as `x` or greater, we reached convergence
+            // (`x` is guaranteed to either go down or oscillate between
+            // `sqrt(self)` and `sqrt(self) + 1`)
+            if !x.cmp_vartime(&next_x).is_gt() {
+                break;
+            }
+            x = next_x;
+        }
+        if self.is_nonzero().into() {
+            x
+        } else {
+            Self::zero_with_precision(self.bits_precision())
+        }
+    }
+}
+//@@ end
+//@@ fn src/uint/boxed/sqrt.rs | impl BoxedUint | wrapping_sqrt | body | props C20 C11 C15
+impl BoxedUint {
+pub fn wrapping_sqrt(&self) -> (ret__: Self)
+//@+
+    requires self.wf()
+    ensures ret__.nl() == self.nl(), is_isqrt(self.v(), ret__.v())
+//@-
+{
+        self.sqrt()
+    }
+}
+//@@ end
+//@@ fn src/uint/boxed/sqrt.rs | impl BoxedUint | wrapping_sqrt_vartime | body | props C20 C11 C15
+impl BoxedUint {
+pub fn wrapping_sqrt_vartime(&self) -> (ret__: Self)
+//@+
+    requires self.wf()
+    ensures ret__.nl() == self.nl(), is_isqrt(self.v(), ret__.v())
+//@-
+{
+        self.sqrt_vartime()
+    }
+}
+//@@ end
+//@@ fn src/uint/boxed/sqrt.rs | impl BoxedUint | checked_sqrt | body | props C20 C11 C15
+impl BoxedUint {
+pub fn checked_sqrt(&self) -> (ret__: CtOption<Self>)
+//@+
+    requires self.wf(), 2 * self.nl() < 0x400_0000   // `r.wrapping_mul(&r)` builds the 2n-limb product and takes its bits_precision()
+    ensures ret__.value.nl() == self.nl(), is_isqrt(self.v(), ret__.value.v()), ret__.is_some.wf(),
+        ret__.is_some.t() == (ret__.value.v() * ret__.value.v() == self.v())
+//@-
+{
+        let r = self.sqrt();
+        let s = r.wrapping_mul(&r);
+//@+
+    proof {
+        lemma_rng(self);
+        lemma_small_mod((r.v() * r.v()) as nat, bp(self.nl()) as nat);
+    }
+//@-
+        CtOption::new(r, ConstantTimeEq::ct_eq(self, &s))
+    }
+}
+//@@ end
+//@@ fn src/uint/boxed/sqrt.rs | impl BoxedUint | checked_sqrt_vartime | body | props C20 C11 C15
+impl BoxedUint {
+pub fn checked_sqrt_vartime(&self) -> (ret__: CtOption<Self>)
+//@+
+    requires self.wf(), 2 * self.nl() < 0x400_0000   // `r.wrapping_mul(&r)` builds the 2n-limb product and takes its bits_precision()
+    ensures ret__.value.nl() == self.nl(), is_isqrt(self.v(), ret__.value.v()), ret__.is_some.wf(),
+        ret__.is_some.t() == (ret__.value.v() * ret__.value.v() == self.v())
+//@-
+{
+        let r = self.sqrt_vartime();
+        let s = r.wrapping_mul(&r);
+//@+
+    proof {
+        lemma_rng(self);
+        lemma_small_mod((r.v() * r.v()) as nat, bp(self.nl()) as nat);
+    }
+//@-
+        CtOption::new(r, ConstantTimeEq::ct_eq(self, &s))
+    }
+}
+//@@ end
+//@@ fn src/uint/boxed/sqrt.rs | impl SquareRoot for BoxedUint | sqrt | body | props C20 C11 C15
+impl SquareRoot for BoxedUint {
+//@+
+    open spec fn sqrt_req(&self) -> bool { self.wf() }
+    open spec fn sqrt_ens(&self, r: Self) -> bool { r.nl() == self.nl() && is_isqrt(self.v(), r.v()) }
+//@-
+fn sqrt(&self) -> (ret__: Self)
+{
+        self.sqrt()
+    }
+}
+//@@ end
+
+
+// ------------------------------------------------------------------------------------------------
+// `core::convert::AsRef` made known to Verus (declaration of an external trait + ghost extension `as_ref_spec`, the pattern
+// of vstd's `PartialEqSpec`); `adc_assign` / `sbb_assign` take `rhs: impl AsRef<[Limb]>`. No assumption: `obeys_as_ref_spec()`
+// is only claimed by impls whose `as_ref` is verified in this crate (BoxedUint below, `&T` by forwarding).
+// The bounds must repeat those of core (`AsRef<T: PointeeSized>: PointeeSized`): needs `#![feature(sized_hierarchy)]`.
+// ------------------------------------------------------------------------------------------------
+#[verifier::external_trait_specification]
+#[verifier::external_trait_extension(AsRefSpec via AsRefSpecImpl)]
+pub trait ExAsRef<T: core::marker::PointeeSized>: core::marker::PointeeSized {
+    type ExternalTraitSpecificationFor: core::convert::AsRef<T>;
+    spec fn obeys_as_ref_spec() -> bool;
+    spec fn as_ref_spec(&self) -> &T;
+    fn as_ref(&self) -> (r: &T)
+        ensures Self::obeys_as_ref_spec() ==> r == self.as_ref_spec();
+}
+impl AsRefSpecImpl<[Limb]> for BoxedUint {
+    open spec fn obeys_as_ref_spec() -> bool { false }
+    open spec fn as_ref_spec(&self) -> &[Limb] { &*self.limbs }
+}
+// core: `impl<T: ?Sized + AsRef<U>, U: ?Sized> AsRef<U> for &T { fn as_ref(&self) -> &U { <T as AsRef<U>>::as_ref(*self) } }`
+impl<'a, T: AsRef<U> + ?Sized, U: ?Sized> AsRefSpecImpl<U> for &'a T {
+    open spec fn obeys_as_ref_spec() -> bool { false }
+    open spec fn as_ref_spec(&self) -> &U { (**self).as_ref_spec() }
+}
+
+// ---- comparison operators of BoxedUint: vstd-level specifications (`a < b` on references is resolved through these)
+pub open spec fn bord_of(a: int, b: int) -> Ordering {
+    if a < b { Ordering::Less } else if a == b { Ordering::Equal } else { Ordering::Greater }
+}
+impl vstd::std_specs::cmp::PartialEqSpecImpl for BoxedUint {
+    open spec fn obeys_eq_spec() -> bool { true }
+    open spec fn eq_spec(&self, other: &BoxedUint) -> bool { self.v() == other.v() }
+}
+impl vstd::std_specs::cmp::PartialOrdSpecImpl for BoxedUint {
+    open spec fn obeys_partial_cmp_spec() -> bool { true }
+    open spec fn partial_cmp_spec(&self, other: &BoxedUint) -> Option<Ordering> { Some(bord_of(self.v(), other.v())) }
+}
+impl vstd::std_specs::cmp::OrdSpecImpl for BoxedUint {
+    open spec fn obeys_cmp_spec() -> bool { true }
+    open spec fn cmp_spec(&self, other: &BoxedUint) -> Ordering { bord_of(self.v(), other.v()) }
+}
+// /repo: `impl Eq for BoxedUint {}` (marker, no method)
+impl Eq for BoxedUint {}
+// `From` impls of src/uint/boxed/from.rs: no vstd-level from_spec is claimed; behaviour = `ensures` of the regions
+impl vstd::std_specs::convert::FromSpecImpl<u64> for BoxedUint {
+    open spec fn obeys_from_spec() -> bool { false }
+    open spec fn from_spec(n: u64) -> BoxedUint { arbitrary() }
+}
+impl vstd::std_specs::convert::FromSpecImpl<u128> for BoxedUint {
+    open spec fn obeys_from_spec() -> bool { false }
+    open spec fn from_spec(n: u128) -> BoxedUint { arbitrary() }
+}
+impl vstd::std_specs::convert::FromSpecImpl<Limb> for BoxedUint {
+    open spec fn obeys_from_spec() -> bool { false }
+    open spec fn from_spec(n: Limb) -> BoxedUint { arbitrary() }
+}
+impl<'a> vstd::std_specs::convert::FromSpecImpl<&'a [Limb]> for BoxedUint {
+    open spec fn obeys_from_spec() -> bool { false }
+    open spec fn from_spec(n: &'a [Limb]) -> BoxedUint { arbitrary() }
+}
+
+
+// ---- lemmas of the modular family (lemma_cond_sub / lemma_cond_add / lemma_mms_core: copies of the private lemmas of l4_modular.rs,
+// the last one with the const generic LIMBS replaced by a ghost n)
+/// conditional subtraction of the modulus after an addition: s in [0, 2p), out = s mod p
+proof fn lemma_cond_sub(s: int, p: int, ww: int, w: int, lt: bool)
+    requires 0 <= s < 2 * p, p < ww, 0 <= w < ww, lt == (s < p),
+        w == (if lt { s - p + ww } else { s - p })
+    ensures (w + (if lt { p } else { 0 })) % ww == s % p, s % p < p
+{
+    if lt {
+        lemma_small_mod(s as nat, p as nat);
+        lemma_mod_add_multiples_vanish(s, ww);
+        lemma_small_mod(s as nat, ww as nat);
+        assert(w + p == ww + s);
+    } else {
+        lemma_fundamental_div_mod_converse(s, p, 1, s - p);
+        lemma_small_mod(w as nat, ww as nat);
+    }
+}
+
+/// conditional addition of the modulus after a subtraction: d in [-p, p), out = d mod p
+proof fn lemma_cond_add(d: int, p: int, ww: int, out: int, neg: bool)
+    requires -p <= d < p, 0 < p < ww, 0 <= out < ww, neg == (d < 0),
+        out == (if neg { d + ww } else { d })
+    ensures (out + (if neg { p } else { 0 })) % ww == d % p, 0 <= d % p < p
+{
+    if neg {
+        lemma_mod_add_multiples_vanish(d + p, ww); lemma_small_mod((d + p) as nat, ww as nat);
+        lemma_mod_add_multiples_vanish(d, p); lemma_small_mod((d + p) as nat, p as nat);
+        assert(out + p == ww + (d + p));
+    } else {
+        lemma_small_mod(d as nat, ww as nat); lemma_small_mod(d as nat, p as nat);
+    }
+}
+
+/// r in [0, W) differs from t by 0 or W  ==>  r == t mod W
+proof fn lemma_wrap(r: int, t: int, ww: int)
+    requires 0 <= r < ww, r == t || r + ww == t
+    ensures r == t % ww
+{
+    if r == t { lemma_small_mod(r as nat, ww as nat); } else { lemma_fundamental_div_mod_converse(t, ww, 1, r); }
+}
+
+/// arithmetic core of Algorithm 14.47 (HAC) as used by mul_mod_special, W = B^n, p = W - c
+proof fn lemma_mms_core(n: nat, a: int, b: int, lo0: int, hv: int, lo1: int, c1: int, lo2: int, c2: int, cv: int)
+    requires n >= 2, a >= 0, b >= 0,
+        0 <= lo0 < bp(n), 0 <= hv < bp(n), 0 <= lo1 < bp(n), 0 <= lo2 < bp(n),
+        1 <= cv < B(), 0 <= c1 < B(), 0 <= c2,
+        lo0 + hv * bp(n) == a * b,
+        lo1 + c1 * bp(n) == lo0 + hv * cv,
+        lo2 + c2 * bp(n) == lo1 + (c1 + 1) * cv,
+    ensures c2 == 0 || c2 == 1,
+        lo2 - (if c2 == 1 { 0 } else { cv }) == (a * b) % (bp(n) - cv),
+        0 <= (a * b) % (bp(n) - cv) < bp(n) - cv
+{
+    let ww = bp(n); let p = ww - cv; let nn = a * b;
+    lemma_bp_succ((n - 1) as nat); lemma_bp_succ((n - 2) as nat);
+    assert(ww >= B() * B()) by (nonlinear_arith) requires ww == B() * bp((n - 1) as nat), bp((n - 1) as nat) == B() * bp((n - 2) as nat), bp((n - 2) as nat) >= 1, B() > 0;
+    let t = lo1 + c1 * cv;
+    assert(nn - t == (hv + c1) * p) by (nonlinear_arith)
+        requires nn == lo0 + hv * ww, lo1 + c1 * ww == lo0 + hv * cv, t == lo1 + c1 * cv, p == ww - cv;
+    assert(nn >= 0) by (nonlinear_arith) requires nn == a * b, a >= 0, b >= 0;
+    let s2 = lo1 + (c1 + 1) * cv;
+    assert((c1 + 1) * cv == c1 * cv + cv) by (nonlinear_arith);
+    assert(c1 * cv <= (B() - 1) * (B() - 1)) by (nonlinear_arith) requires 0 <= c1 <= B() - 1, 0 <= cv <= B() - 1;
+    assert((B() - 1) * (B() - 1) == B() * B() - 2 * B() + 1) by (nonlinear_arith);
+    assert(c2 == 0 || c2 == 1) by (nonlinear_arith) requires lo2 + c2 * ww == s2, s2 < 2 * ww, lo2 >= 0, c2 >= 0, ww > 0;
+    assert(c2 * ww == (if c2 == 1 { ww } else { 0 })) by (nonlinear_arith) requires c2 == 0 || c2 == 1;
+    assert(t >= 0) by (nonlinear_arith) requires t == lo1 + c1 * cv, lo1 >= 0, c1 >= 0, cv >= 0;
+    let res = if c2 == 1 { t - p } else { t };
+    assert(0 <= res < p);
+    let qq = if c2 == 1 { hv + c1 + 1 } else { hv + c1 };
+    if c2 == 1 {
+        assert(nn == p * qq + res) by (nonlinear_arith) requires nn - t == (hv + c1) * p, res == t - p, qq == hv + c1 + 1;
+    } else {
+        assert(nn == p * qq + res) by (nonlinear_arith) requires nn - t == (hv + c1) * p, res == t, qq == hv + c1;
+    }
+    assert(p > 0);
+    lemma_fundamental_div_mod_converse(nn, p, qq, res);
+}
+
+/// val(s, h + m) == val(s[0..h], h) + val(s[h..h+m], m) * B^h   (copy of the private l7_boxed_slices::lemma_bs_val_split, window form)
+proof fn lemma_val_split(s: Seq<Limb>, h: nat, m: nat)
+    requires h + m <= s.len()
+    ensures val(s, h + m) == val(s.subrange(0, h as int), h) + val(s.subrange(h as int, (h + m) as int), m) * bp(h)
+    decreases m
+{
+    let t = s.subrange(h as int, (h + m) as int);
+    if m > 0 {
+        let m1 = (m - 1) as nat;
+        lemma_val_split(s, h, m1);
+        lemma_bp_add(h, m1);
+        let t1 = s.subrange(h as int, (h + m1) as int);
+        assert forall|k: int| 0 <= k < m1 implies t1[k] == t[k] by { }
+        lemma_val_ext(t1, t, m1);
+        assert(t[m - 1] == s[h + m - 1]);
+        let a = t[m - 1].0 as int;
+        assert((val(t, m1) + a * bp(m1)) * bp(h) == val(t, m1) * bp(h) + a * (bp(h) * bp(m1))) by (nonlinear_arith);
+        assert((h + m - 1) as nat == (h + m1) as nat);
+    } else {
+        lemma_val_ext(s, s.subrange(0, h as int), h);
+        assert(val(t, 0) * bp(h) == 0) by (nonlinear_arith) requires val(t, 0) == 0;
+    }
+}
+
+/// facts about `!c` for whatever Choice comes back from `is_zero()`
+pub proof fn lemma_not_all()
+    ensures forall|c: Choice| c.wf() ==> (#[trigger] choice_not(c)).wf() && choice_not(c).t() == !c.t()
+{
+    assert forall|c: Choice| c.wf() implies (#[trigger] choice_not(c)).wf() && choice_not(c).t() == !c.t() by { lemma_choice_ops(c, c); }
+}
+
+// ------------------------------------------------------------------------------------------------
+// C07: modular arithmetic (src/uint/boxed/add_mod.rs, sub_mod.rs, neg_mod.rs, mul_mod.rs)
+// ------------------------------------------------------------------------------------------------
+//@@ fn src/uint/boxed.rs | impl BoxedUint | as_limbs | stub | props C16 C11
+impl BoxedUint {
+#[verifier::external_body]
+pub fn as_limbs(&self) -> (ret__: &[Limb])
+//@+
+    ensures ret__@ == self.limbs@
+//@-
+{
+    unimplemented!()
+}
+}
+//@@ end
+//@@ fn src/uint/boxed.rs | impl AsRef<[Limb]> for BoxedUint | as_ref | body | props C16 C11
+impl AsRef<[Limb]> for BoxedUint {
+fn as_ref(&self) -> (ret__: &[Limb])
+//@+
+    ensures ret__@ == self.limbs@
+//@-
+{
+        self.as_limbs()
+    }
+}
+//@@ end
+//@@ fn src/uint/boxed/add.rs | impl BoxedUint | adc_assign | stub | props C04 C11 C15
+impl BoxedUint {
+#[verifier::external_body]
+pub fn adc_assign(&mut self, rhs: impl AsRef<[Limb]>, mut carry: Limb) -> (ret__: Limb)
+//@+
+    requires old(self).limbs@.len() < 0x400_0000, rhs.as_ref_spec()@.len() <= old(self).limbs@.len()
+    ensures final(self).nl() == old(self).nl(),
+        final(self).v() + ret__.0 as int * bp(old(self).nl()) == old(self).v() + val(rhs.as_ref_spec()@, rhs.as_ref_spec()@.len()) + carry.0 as int,
+        final(self).v() == (old(self).v() + val(rhs.as_ref_spec()@, rhs.as_ref_spec()@.len()) + carry.0 as int) % bp(old(self).nl()),
+        carry.0 <= 1 ==> ret__.0 <= 1
+//@-
+{
+    unimplemented!()
+}
+}
+//@@ end
+//@@ fn src/uint/boxed/sub.rs | impl BoxedUint | sbb_assign | stub | props C04 C11 C15
+impl BoxedUint {
+#[verifier::external_body]
+pub fn sbb_assign(&mut self, rhs: impl AsRef<[Limb]>, mut borrow: Limb) -> (ret__: Limb)
+//@+
+    requires old(self).limbs@.len() < 0x400_0000, rhs.as_ref_spec()@.len() <= old(self).limbs@.len()
+    ensures final(self).nl() == old(self).nl(), ret__.0 == 0 || ret__.0 == u64::MAX,
+        final(self).v() - bb(ret__) * bp(old(self).nl()) == old(self).v() - val(rhs.as_ref_spec()@, rhs.as_ref_spec()@.len()) - (borrow.0 >> 63) as int,
+        final(self).v() == (old(self).v() - val(rhs.as_ref_spec()@, rhs.as_ref_spec()@.len()) - (borrow.0 >> 63) as int) % bp(old(self).nl())
+//@-
+{
+    unimplemented!()
+}
+}
+//@@ end
+//@@ fn src/uint/boxed/sub.rs | impl BoxedUint | wrapping_sub | body | props C04 C11 C15
+impl BoxedUint {
+pub fn wrapping_sub(&self, rhs: &Self) -> (ret__: Self)
+//@+
+    requires self.nl() >= 1 || rhs.nl() >= 1
+    ensures ret__.nl() == max_nat(self.nl(), rhs.nl()), ret__.v() == (self.v() - rhs.v()) % bp(ret__.nl())
+//@-
+{
+//@+
+    assert(0u64 >> 63 == 0) by (bit_vector);
+//@-
+        self.sbb(rhs, Limb::ZERO).0
+    }
+}
+//@@ end
+//@@ fn src/uint/boxed/shl.rs | impl BoxedUint | shl1_assign | stub | props C05 C11
+impl BoxedUint {
+#[verifier::external_body]
+pub fn shl1_assign(&mut self) -> (ret__: Limb)
+//@+
+    requires old(self).nl() >= 1
+    ensures final(self).nl() == old(self).nl(), ret__.0 <= 1, final(self).v() + ret__.0 as int * bp(old(self).nl()) == 2 * old(self).v()
+//@-
+{
+    unimplemented!()
+}
+}
+//@@ end
+//@@ fn src/uint/boxed/shl.rs | impl BoxedUint | overflowing_shl1 | body | props C05 C11 C15
+impl BoxedUint {
+pub fn overflowing_shl1(&self) -> (ret__: (Self, Limb))
+//@+
+    requires self.nl() >= 1
+    ensures ret__.0.nl() == self.nl(), ret__.1.0 <= 1, ret__.0.v() + ret__.1.0 as int * bp(self.nl()) == 2 * self.v()
+//@-
+{
+        let mut ret = self.clone();
+        let carry = ret.shl1_assign();
+        (ret, carry)
+    }
+}
+//@@ end
+//@@ fn src/uint/boxed/from.rs | impl From<u64> for BoxedUint | from | stub | props C16 C11
+impl From<u64> for BoxedUint {
+#[verifier::external_body]
+fn from(n: u64) -> (ret__: Self)
+//@+
+    ensures ret__.nl() == 1, ret__.v() == n
+//@-
+{
+    unimplemented!()
+}
+}
+//@@ end
+//@@ fn src/uint/boxed/from.rs | impl From<u128> for BoxedUint | from | stub | props C16 C11
+impl From<u128> for BoxedUint {
+#[verifier::external_body]
+fn from(n: u128) -> (ret__: Self)
+//@+
+    ensures ret__.nl() == 2, ret__.v() == n
+//@-
+{
+    unimplemented!()
+}
+}
+//@@ end
+//@@ fn src/uint/boxed/from.rs | impl From<Limb> for BoxedUint | from | stub | props C16 C11
+impl From<Limb> for BoxedUint {
+#[verifier::external_body]
+fn from(limb: Limb) -> (ret__: Self)
+//@+
+    ensures ret__.nl() == 1, ret__.v() == limb.0
+//@-
+{
+    unimplemented!()
+}
+}
+//@@ end
+//@@ fn src/uint/boxed/from.rs | impl From<&[Limb]> for BoxedUint | from | stub | props C16 C11
+impl From<&[Limb]> for BoxedUint {
+#[verifier::external_body]
+fn from(limbs: &[Limb]) -> (ret__: BoxedUint)
+//@+
+    ensures ret__.limbs@ == limbs@
+//@-
+{
+    unimplemented!()
+}
+}
+//@@ end
+//@@ fn src/uint/boxed/cmp.rs | impl PartialEq for BoxedUint | eq | body | props C06 C11 C15
+impl PartialEq for BoxedUint {
+fn eq(&self, other: &Self) -> (ret__: bool)
+//@+
+    ensures ret__ == (self.v() == other.v())
+//@-
+{
+        self.ct_eq(other).into()
+    }
+}
+//@@ end
+//@@ fn src/uint/boxed/cmp.rs | impl Ord for BoxedUint | cmp | stub | props C06 C11 C15
+impl Ord for BoxedUint {
+#[verifier::external_body]
+fn cmp(&self, other: &Self) -> (ret__: Ordering)
+//@+
+    ensures ret__ == bord_of(self.v(), other.v())
+//@-
+{
+    unimplemented!()
+}
+}
+//@@ end
+//@@ fn src/uint/boxed/cmp.rs | impl PartialOrd for BoxedUint | partial_cmp | body | props C06 C11 C15
+impl PartialOrd for BoxedUint {
+fn partial_cmp(&self, other: &Self) -> (ret__: Option<Ordering>)
+//@+
+    ensures ret__ == Some(bord_of(self.v(), other.v()))
+//@-
+{
+        Some(self.cmp(other))
+    }
+}
+//@@ end
+//@@ fn src/uint/boxed/add_mod.rs | impl BoxedUint | add_mod_assign | body | props C07 C11 C15
+impl BoxedUint {
+pub fn add_mod_assign(&mut self, rhs: &Self, p: &Self)
+//@+
+    requires old(self).wf(), rhs.nl() == old(self).nl(), p.nl() == old(self).nl(), old(self).v() < p.v(), rhs.v() < p.v()
+    ensures final(self).nl() == old(self).nl(), final(self).v() == (old(self).v() + rhs.v()) % p.v(), final(self).v() < p.v()
+//@-
+{
+//@+
+    let ghost a = self.v(); let ghost nl = self.nl(); let ghost ww = bp(nl); let ghost s = a + rhs.v();
+    proof { lemma_rng(self); lemma_rng(rhs); lemma_rng(p); lemma_not_all(); }
+    assert(0u64 >> 63 == 0) by (bit_vector);
+//@-
+        debug_assert_eq!(self.bits_precision(), p.bits_precision());
+        debug_assert_eq!(rhs.bits_precision(), p.bits_precision());
+        debug_assert!(&*self < p);
+        debug_assert!(rhs < p);
+        let carry = self.adc_assign(rhs, Limb::ZERO);
+        // Attempt to subtract the modulus, to ensure the result is in the field.
+        let borrow = self.sbb_assign(p, Limb::ZERO);
+//@+
+    let ghost w2 = self.v(); let ghost borrow1 = borrow;
+    proof { lemma_rng(self); }
+//@-
+        let (_, borrow) = carry.sbb(Limb::ZERO, borrow);
+//@+
+    proof {
+        let c = carry.0 as int;
+        assert(c * ww == (if c == 1 { ww } else { 0 })) by (nonlinear_arith) requires c == 0 || c == 1;
+        assert(bb(borrow1) * ww == (if bb(borrow1) == 1 { ww } else { 0 })) by (nonlinear_arith) requires bb(borrow1) == 0 || bb(borrow1) == 1;
+        assert((borrow.0 == u64::MAX) == (s < p.v()));
+        assert(borrow.0 == 0 || borrow.0 == u64::MAX);
+        lemma_cond_sub(s, p.v(), ww, w2, s < p.v());
+    }
+//@-
+        // If underflow occurred on the final limb, borrow = 0xfff...fff, otherwise
+        // borrow = 0x000...000. Thus, we use it as a mask to conditionally add the
+        // modulus.
+        self.conditional_adc_assign(p, !borrow.is_zero());
+//@+
+    proof { lemma_rng(self); lemma_wrap(self.v(), w2 + (if s < p.v() { p.v() } else { 0 }), ww); }
+//@-
+    }
+}
+//@@ end
+//@@ fn src/uint/boxed/add_mod.rs | impl BoxedUint | add_mod | body | props C07 C11 C15
+impl BoxedUint {
+pub fn add_mod(&self, rhs: &Self, p: &Self) -> (ret__: Self)
+//@+
+    requires self.wf(), rhs.nl() == self.nl(), p.nl() == self.nl(), self.v() < p.v(), rhs.v() < p.v()
+    ensures ret__.nl() == self.nl(), ret__.v() == (self.v() + rhs.v()) % p.v(), ret__.v() < p.v()
+//@-
+{
+        let mut result = self.clone();
+        result.add_mod_assign(rhs, p);
+        result
+    }
+}
+//@@ end
+//@@ fn src/uint/boxed/add_mod.rs | impl BoxedUint | double_mod | body | props C07 C11 C15
+impl BoxedUint {
+pub fn double_mod(&self, p: &Self) -> (ret__: Self)
+//@+
+    requires self.wf(), p.nl() == self.nl(), self.v() < p.v()
+    ensures ret__.nl() == self.nl(), ret__.v() == (2 * self.v()) % p.v(), ret__.v() < p.v()
+//@-
+{
+//@+
+    let ghost nl = self.nl(); let ghost ww = bp(nl); let ghost s = 2 * self.v();
+    proof { lemma_rng(self); lemma_rng(p); lemma_not_all(); }
+    assert(0u64 >> 63 == 0) by (bit_vector);
+//@-
+        let (mut w, carry) = self.overflowing_shl1();
+        // Attempt to subtract the modulus, to ensure the result is in the field.
+        let borrow = w.sbb_assign(p, Limb::ZERO);
+//@+
+    let ghost w2 = w.v(); let ghost borrow1 = borrow;
+    proof { lemma_rng(&w); }
+//@-
+        let (_, borrow) = carry.sbb(Limb::ZERO, borrow);
+//@+
+    proof {
+        let c = carry.0 as int;
+        assert(c * ww == (if c == 1 { ww } else { 0 })) by (nonlinear_arith) requires c == 0 || c == 1;
+        assert(bb(borrow1) * ww == (if bb(borrow1) == 1 { ww } else { 0 })) by (nonlinear_arith) requires bb(borrow1) == 0 || bb(borrow1) == 1;
+        assert((borrow.0 == u64::MAX) == (s < p.v()));
+        assert(borrow.0 == 0 || borrow.0 == u64::MAX);
+        lemma_cond_sub(s, p.v(), ww, w2, s < p.v());
+    }
+//@-
+        // If underflow occurred on the final limb, borrow = 0xfff...fff, otherwise
+        // borrow = 0x000...000. Thus, we use it as a mask to conditionally add the
+        // modulus.
+        w.conditional_adc_assign(p, !borrow.is_zero());
+//@+
+    proof { lemma_rng(&w); lemma_wrap(w.v(), w2 + (if s < p.v() { p.v() } else { 0 }), ww); }
+//@-
+        w
+    }
+}
+//@@ end
+//@@ fn src/uint/boxed/sub_mod.rs | impl BoxedUint | sub_mod | body | props C07 C11 C15
+impl BoxedUint {
+pub fn sub_mod(&self, rhs: &Self, p: &Self) -> (ret__: Self)
+//@+
+    requires self.wf(), rhs.nl() == self.nl(), p.nl() == self.nl(), self.v() < p.v(), rhs.v() < p.v()
+    ensures ret__.nl() == self.nl(), ret__.v() == (self.v() - rhs.v()) % p.v(), ret__.v() < p.v()
+//@-
+{
+//@+
+    let ghost nl = self.nl(); let ghost ww = bp(nl); let ghost d = self.v() - rhs.v();
+    proof { lemma_rng(self); lemma_rng(rhs); lemma_rng(p); lemma_not_all(); }
+    assert(0u64 >> 63 == 0) by (bit_vector);
+//@-
+        debug_assert_eq!(self.bits_precision(), p.bits_precision());
+        debug_assert_eq!(rhs.bits_precision(), p.bits_precision());
+        debug_assert!(self < p);
+        debug_assert!(rhs < p);
+        let (mut out, borrow) = self.sbb(rhs, Limb::ZERO);
+//@+
+    let ghost o1 = out.v();
+    proof {
+        lemma_rng(&out);
+        assert(bb(borrow) * ww == (if bb(borrow) == 1 { ww } else { 0 })) by (nonlinear_arith) requires bb(borrow) == 0 || bb(borrow) == 1;
+        lemma_cond_add(d, p.v(), ww, o1, d < 0);
+    }
+//@-
+        // If underflow occurred on the final limb, borrow = 0xfff...fff, otherwise
+        // borrow = 0x000...000. Thus, we use it as a mask to conditionally add the modulus.
+        out.conditional_adc_assign(p, !borrow.is_zero());
+//@+
+    proof { lemma_rng(&out); lemma_wrap(out.v(), o1 + (if d < 0 { p.v() } else { 0 }), ww); }
+//@-
+        out
+    }
+}
+//@@ end
+//@@ fn src/uint/boxed/sub_mod.rs | impl BoxedUint | sub_assign_mod_with_carry | body | props C07 C08 C11
+impl BoxedUint {
+pub fn sub_assign_mod_with_carry(&mut self, carry: Limb, rhs: &Self, p: &Self)
+//@+
+    requires old(self).wf(), rhs.nl() == old(self).nl(), p.nl() == old(self).nl(), carry.0 <= 1, p.v() > 0,
+        -p.v() <= old(self).v() + carry.0 as int * bp(old(self).nl()) - rhs.v() < p.v()
+    ensures final(self).nl() == old(self).nl(), final(self).v() < p.v(),
+        final(self).v() == (old(self).v() + carry.0 as int * bp(old(self).nl()) - rhs.v()) % p.v()
+//@-
+{
+//@+
+    let ghost nl = self.nl(); let ghost ww = bp(nl); let ghost c = carry.0 as int; let ghost d = self.v() + c * ww - rhs.v();
+    proof { lemma_rng(self); lemma_rng(rhs); lemma_rng(p); lemma_not_all(); }
+    assert(0u64 >> 63 == 0) by (bit_vector);
+//@-
+        debug_assert!(carry.0 <= 1);
+        let borrow = self.sbb_assign(rhs, Limb::ZERO);
+//@+
+    let ghost o1 = self.v(); let ghost cw = carry.0; let ghost bw = borrow.0;
+    proof {
+        lemma_rng(self);
+        assert(0 < B()); lemma_mod_self_0(B()); lemma_small_mod((B() - 1) as nat, B() as nat);
+        assert(!0u64 == 0xffff_ffff_ffff_ffffu64) by (bit_vector);
+        assert(!0xffff_ffff_ffff_ffffu64 == 0u64) by (bit_vector);
+        assert(0xffff_ffff_ffff_ffffu64 & bw == bw) by (bit_vector);
+        assert(0u64 & bw == 0u64) by (bit_vector);
+    }
+//@-
+        // The new `borrow = Word::MAX` iff `carry == 0` and `borrow == Word::MAX`.
+        let mask = carry.wrapping_neg().not().bitand(borrow);
+//@+
+    proof {
+        assert(c * ww == (if c == 1 { ww } else { 0 })) by (nonlinear_arith) requires c == 0 || c == 1;
+        assert(bb(borrow) * ww == (if bb(borrow) == 1 { ww } else { 0 })) by (nonlinear_arith) requires bb(borrow) == 0 || bb(borrow) == 1;
+        assert((mask.0 == u64::MAX) == (c == 0 && borrow.0 == u64::MAX));
+        assert(mask.0 == 0 || mask.0 == u64::MAX);
+        assert((mask.0 == u64::MAX) == (d < 0));
+        lemma_cond_add(d, p.v(), ww, o1, d < 0);
+    }
+//@-
+        // If underflow occurred on the final limb, borrow = 0xfff...fff, otherwise
+        // borrow = 0x000...000. Thus, we use it as a mask to conditionally add the modulus.
+        self.conditional_adc_assign(p, !mask.is_zero());
+//@+
+    proof { lemma_rng(self); lemma_wrap(self.v(), o1 + (if d < 0 { p.v() } else { 0 }), ww); }
+//@-
+    }
+}
+//@@ end
+//@@ fn src/uint/boxed/sub_mod.rs | impl BoxedUint | sub_mod_special | body | props C07 C11 C15
+impl BoxedUint {
+pub fn sub_mod_special(&self, rhs: &Self, c: Limb) -> (ret__: Self)
+//@+
+    requires self.wf(), rhs.nl() == self.nl(), c.0 >= 1,
+        -(bp(self.nl()) - c.0 as int) <= self.v() - rhs.v() < bp(self.nl()) - c.0 as int
+    ensures ret__.nl() == self.nl(), ret__.v() == (self.v() - rhs.v()) % (bp(self.nl()) - c.0 as int), ret__.v() < bp(self.nl()) - c.0 as int
+//@-
+{
+//@+
+    assert(0u64 >> 63 == 0) by (bit_vector);
+//@-
+        let (out, borrow) = self.sbb(rhs, Limb::ZERO);
+        // If underflow occurred, then we need to subtract `c` to account for
+        // the underflow. This cannot underflow due to the assumption
+        // `self - rhs >= -p`.
+        let l = borrow.0 & c.0;
+//@+
+    proof {
+        lemma_rng(self); lemma_rng(rhs); lemma_rng(&out);
+        let nl = self.nl(); let ww = bp(nl); let cv = c.0 as int; let p = ww - cv; let d = self.v() - rhs.v();
+        lemma_bp_succ((nl - 1) as nat);
+        assert(ww >= B()) by (nonlinear_arith) requires ww == B() * bp((nl - 1) as nat), bp((nl - 1) as nat) >= 1;
+        assert(bb(borrow) * ww == (if bb(borrow) == 1 { ww } else { 0 })) by (nonlinear_arith) requires bb(borrow) == 0 || bb(borrow) == 1;
+        let bw = borrow.0; let c0 = c.0;
+        assert(l == (if bw == 0xffff_ffff_ffff_ffffu64 { c0 } else { 0 })) by (bit_vector) requires l == (bw & c0), bw == 0 || bw == 0xffff_ffff_ffff_ffffu64;
+        if d < 0 {
+            lemma_small_mod((d + p) as nat, ww as nat);
+            lemma_mod_add_multiples_vanish(d, p); lemma_small_mod((d + p) as nat, p as nat);
+        } else {
+            lemma_small_mod(d as nat, ww as nat); lemma_small_mod(d as nat, p as nat);
+        }
+    }
+//@-
+        out.wrapping_sub(&Self::from(l))
+    }
+}
+//@@ end
+//@@ fn src/uint/boxed/neg_mod.rs | impl BoxedUint | neg_mod | body | props C07 C11 C15
+impl BoxedUint {
+pub fn neg_mod(&self, p: &Self) -> (ret__: Self)
+//@+
+    requires self.wf(), p.nl() == self.nl(), self.v() < p.v()
+    ensures ret__.nl() == self.nl(), ret__.v() == (p.v() - self.v()) % p.v(), ret__.v() < p.v()
+//@-
+{
+//@+
+    let ghost nl = self.nl();
+    assert(0u64 >> 63 == 0) by (bit_vector);
+//@-
+        debug_assert_eq!(self.bits_precision(), p.bits_precision());
+        let is_zero = self.is_zero();
+        let mut ret = p.sbb(self, Limb::ZERO).0;
+//@+
+    let ghost r0 = ret.limbs@;
+    proof { lemma_rng(self); lemma_rng(p); lemma_rng(&ret); }
+//@-
+        for i in 0..self.nlimbs()
+//@+
+    invariant ret.limbs@.len() == nl, r0.len() == nl, self.limbs@.len() == nl, is_zero.wf(),
+        forall|k: int| 0 <= k < VERUS_ghost_iter.index@ ==> ret.limbs@[k].0 == (if is_zero.t() { 0 } else { r0[k].0 }),
+        forall|k: int| VERUS_ghost_iter.index@ <= k < nl ==> ret.limbs@[k] == r0[k],
+//@-
+{
+            // Set ret to 0 if the original value was 0, in which
+            // case ret would be p.
+            ret.limbs[i].conditional_assign(&Limb::ZERO, is_zero);
+        }
+//@+
+    proof {
+        let ww = bp(nl); let d = p.v() - self.v();
+        lemma_small_mod(d as nat, ww as nat);
+        if is_zero.t() {
+            lemma_val_zero(ret.limbs@, nl);
+            lemma_mod_self_0(p.v());
+        } else {
+            lemma_val_ext(ret.limbs@, r0, nl);
+            lemma_small_mod(d as nat, p.v() as nat);
+        }
+    }
+//@-
+        ret
+    }
+}
+//@@ end
+//@@ fn src/uint/boxed/neg_mod.rs | impl BoxedUint | neg_mod_special | body | props C07 C11 C15
+impl BoxedUint {
+pub fn neg_mod_special(&self, c: Limb) -> (ret__: Self)
+//@+
+    requires self.wf(), c.0 >= 1, self.v() <= bp(self.nl()) - c.0 as int
+    ensures ret__.nl() == self.nl(), ret__.v() == (-self.v()) % (bp(self.nl()) - c.0 as int), ret__.v() < bp(self.nl()) - c.0 as int
+//@-
+{
+//@+
+    proof {
+        lemma_rng(self); lemma_nlimbs_for(self.nl());
+        lemma_bp_succ((self.nl() - 1) as nat);
+        assert(bp(self.nl()) >= B()) by (nonlinear_arith) requires bp(self.nl()) == B() * bp((self.nl() - 1) as nat), bp((self.nl() - 1) as nat) >= 1;
+    }
+//@-
+        Self::zero_with_precision(self.bits_precision()).sub_mod_special(self, c)
+    }
+}
+//@@ end
+//@@ fn src/uint/boxed/mul_mod.rs | - | mac_by_limb | body | props C07 C11
+pub fn mac_by_limb(a: &BoxedUint, b: &BoxedUint, c: Limb, carry: Limb) -> (ret__: (BoxedUint, Limb))
+//@+
+    requires a.nl() <= b.nl()
+    ensures ret__.0.nl() == a.nl(), ret__.0.v() + ret__.1.0 as int * bp(a.nl()) == a.v() + val(b.limbs@, a.nl()) * c.0 as int + carry.0 as int
+//@-
+{
+//@+
+    let ghost a0 = a.limbs@; let ghost carry0 = carry; let ghost n = a.nl();
+//@-
+    let mut a = a.clone();
+    let mut carry = carry;
+//@+
+    proof {
+        lemma_bp_succ(0);
+        assert(val(b.limbs@, 0) * c.0 as int == 0) by (nonlinear_arith) requires val(b.limbs@, 0) == 0;
+        assert(carry.0 as int * bp(0) == carry.0 as int) by (nonlinear_arith) requires bp(0) == 1;
+    }
+//@-
+    for i in 0..a.nlimbs()
+//@+
+    invariant a.limbs@.len() == n, a0.len() == n, n <= b.limbs@.len(), VERUS_ghost_iter.iter.end == n,
+        forall|k: int| VERUS_ghost_iter.index@ <= k < n ==> a.limbs@[k] == a0[k],
+        val(a.limbs@, VERUS_ghost_iter.index@ as nat) + carry.0 as int * bp(VERUS_ghost_iter.index@ as nat)
+            == val(a0, VERUS_ghost_iter.index@ as nat) + val(b.limbs@, VERUS_ghost_iter.index@ as nat) * c.0 as int + carry0.0 as int,
+//@-
+{
+//@+
+    let ghost ab = a.limbs@; let ghost cb = carry; let ghost cc = c;
+//@-
+        let (n, c) = a.limbs[i].mac(b.limbs[i], c, carry);
+        a.limbs[i] = n;
+        carry = c;
+//@+
+    proof {
+        lemma_val_ext(ab, a.limbs@, i as nat);
+        lemma_bp_succ(i as nat);
+        let pk = bp(i as nat); let x = n.0 as int; let c1 = carry.0 as int; let c0 = cb.0 as int;
+        let ai = a0[i as int].0 as int; let bi = b.limbs@[i as int].0 as int; let cv = cc.0 as int;
+        assert(x + c1 * B() == ai + bi * cv + c0);
+        assert(x * pk + c1 * (B() * pk) == ai * pk + (bi * pk) * cv + c0 * pk) by (nonlinear_arith) requires x + c1 * B() == ai + bi * cv + c0;
+        assert((val(b.limbs@, i as nat) + bi * pk) * cv == val(b.limbs@, i as nat) * cv + (bi * pk) * cv) by (nonlinear_arith);
+    }
+//@-
+    }
+    (a, carry)
+}
+//@@ end
+//@@ fn src/uint/boxed/mul_mod.rs | impl BoxedUint | mul_mod_special | body | props C07 C11 C15
+impl BoxedUint {
+pub fn mul_mod_special(&self, rhs: &Self, c: Limb) -> (ret__: Self)
+//@+
+    requires self.wf(), rhs.nl() == self.nl(), c.0 >= 1
+    ensures ret__.nl() == self.nl(), ret__.v() == (self.v() * rhs.v()) % (bp(self.nl()) - c.0 as int), ret__.v() < bp(self.nl()) - c.0 as int
+//@-
+{
+//@+
+    let ghost nl = self.nl(); let ghost a = self.v(); let ghost b = rhs.v(); let ghost ww = bp(nl);
+    proof { lemma_rng(self); lemma_rng(rhs); }
+    assert(0u64 >> 63 == 0) by (bit_vector);
+//@-
+        debug_assert_eq!(self.bits_precision(), rhs.bits_precision());
+        // We implicitly assume `LIMBS > 0`, because `Uint<0>` doesn't compile.
+        // Still the case `LIMBS == 1` needs special handling.
+        if self.nlimbs() == 1 {
+//@+
+    proof {
+        lemma_bp1();
+        lemma_val_single(self.limbs@, 1); lemma_val_single(rhs.limbs@, 1);
+        let c0 = c.0; let m = 0u64.wrapping_sub(c0);
+        assert(m as int == B() - c0 as int);
+    }
+//@-
+            let reduced = mul_rem(
+                self.limbs[0],
+                rhs.limbs[0],
+                NonZero::<Limb>::new_unwrap(Limb(Word::MIN.wrapping_sub(c.0))),
+            );
+//@+
+    proof {
+        let n = a * b; let p = B() - c.0 as int;
+        assert(n >= 0) by (nonlinear_arith) requires n == a * b, a >= 0, b >= 0;
+        lemma_mod_pos_bound(n, p);
+    }
+//@-
+            return Self::from(reduced);
+        }
+        let product = self.mul(rhs);
+        let (lo_words, hi_words) = product.limbs.split_at(self.nlimbs());
+        let lo = BoxedUint::from(lo_words);
+        let hi = BoxedUint::from(hi_words);
+//@+
+    let ghost lo0 = lo.v(); let ghost hv = hi.v();
+    proof {
+        lemma_val_split(product.limbs@, nl, nl);
+        assert(lo.limbs@ == product.limbs@.subrange(0, nl as int));
+        assert(hi.limbs@ == product.limbs@.subrange(nl as int, (nl + nl) as int));
+        assert(lo0 + hv * ww == a * b);
+        lemma_rng(&lo); lemma_rng(&hi);
+    }
+//@-
+        // Now use Algorithm 14.47 for the reduction
+        let (lo, carry) = mac_by_limb(&lo, &hi, c, Limb::ZERO);
+//@+
+    let ghost lo1 = lo.v(); let ghost c1 = carry.0 as int;
+    proof {
+        lemma_rng(&lo);
+        let cv = c.0 as int;
+        assert((c1 + 1) * cv <= 0xffff_ffff_ffff_ffff * 0x1_0000_0000_0000_0000) by (nonlinear_arith) requires 0 <= c1 <= 0xffff_ffff_ffff_ffff, 0 <= cv <= 0xffff_ffff_ffff_ffff;
+    }
+//@-
+        let (lo, carry) = {
+            let rhs = (carry.0 as WideWord + 1) * c.0 as WideWord;
+            lo.adc(&Self::from(rhs), Limb::ZERO)
+        };
+//@+
+    let ghost lo2 = lo.v(); let ghost c2 = carry.0 as int;
+//@-
+        let (lo, _) = {
+            let rhs = carry.0.wrapping_sub(1) & c.0;
+//@+
+    proof {
+        lemma_rng(&lo);
+        lemma_mms_core(nl, a, b, lo0, hv, lo1, c1, lo2, c2, c.0 as int);
+        let cw = carry.0; let c0 = c.0; let ws = cw.wrapping_sub(1);
+        lemma_wsub_u64(cw, 1, ws);
+        assert(rhs == (if cw == 1 { 0 } else { c0 })) by (bit_vector) requires rhs == (sub(cw, 1) & c0), cw == 0 || cw == 1;
+        let n = a * b; let p = ww - c.0 as int;
+        assert(lo2 - rhs as int == n % p);
+        lemma_small_mod((n % p) as nat, ww as nat);
+    }
+//@-
+            lo.sbb(&Self::from(rhs), Limb::ZERO)
+        };
+        lo
+    }
+}
+//@@ end
+//@@ fn src/uint/boxed/add_mod.rs | impl AddMod for BoxedUint | add_mod | body | props C07 C11 C15
+impl AddMod for BoxedUint {
+//@+
+    type Output = Self;
+    open spec fn add_mod_req(&self, rhs: &Self, p: &Self) -> bool { self.wf() && rhs.nl() == self.nl() && p.nl() == self.nl() && self.v() < p.v() && rhs.v() < p.v() }
+    open spec fn add_mod_ens(&self, rhs: &Self, p: &Self, r: Self) -> bool { r.nl() == self.nl() && r.v() == (self.v() + rhs.v()) % p.v() && r.v() < p.v() }
+//@-
+fn add_mod(&self, rhs: &Self, p: &Self) -> (ret__: Self)
+{
+        self.add_mod(rhs, p)
+    }
+}
+//@@ end
+//@@ fn src/uint/boxed/sub_mod.rs | impl SubMod for BoxedUint | sub_mod | body | props C07 C11 C15
+impl SubMod for BoxedUint {
+//@+
+    type Output = Self;
+    open spec fn sub_mod_req(&self, rhs: &Self, p: &Self) -> bool { self.wf() && rhs.nl() == self.nl() && p.nl() == self.nl() && self.v() < p.v() && rhs.v() < p.v() }
+    open spec fn sub_mod_ens(&self, rhs: &Self, p: &Self, r: Self) -> bool { r.nl() == self.nl() && r.v() == (self.v() - rhs.v()) % p.v() && r.v() < p.v() }
+//@-
+fn sub_mod(&self, rhs: &Self, p: &Self) -> (ret__: Self)
+{
+        self.sub_mod(rhs, p)
+    }
+}
+//@@ end
+//@@ fn src/uint/boxed/neg_mod.rs | impl NegMod for BoxedUint | neg_mod | body | props C07 C11 C15
+impl NegMod for BoxedUint {
+//@+
+    type Output = Self;
+    open spec fn neg_mod_req(&self, p: &Self) -> bool { self.wf() && p.nl() == self.nl() && self.v() < p.v() }
+    open spec fn neg_mod_ens(&self, p: &Self, r: Self) -> bool { r.nl() == self.nl() && r.v() == (p.v() - self.v()) % p.v() && r.v() < p.v() }
+//@-
+fn neg_mod(&self, p: &Self) -> (ret__: Self)
+{
+        debug_assert!(self < p);
+        self.neg_mod(p)
+    }
+}
+//@@ end
+
+// ------------------------------------------------------------------------------------------------
+// C02 / C15: the wrappers of src/uint/boxed/div.rs (result precisions: quotient = precision of self, remainder = precision of rhs)
+// ------------------------------------------------------------------------------------------------
+// /repo calls the free functions of src/uint/boxed/div_limb.rs through the path `boxed::div_limb::..`
+mod boxed { pub mod div_limb { pub use crate::l7_boxed_div::{div_rem_limb_with_reciprocal, rem_limb_with_reciprocal}; } }
+//@@ fn src/uint/boxed/div.rs | impl BoxedUint | div_rem_limb_with_reciprocal | body | props C02 C11 C15
+impl BoxedUint {
+pub fn div_rem_limb_with_reciprocal(&self, reciprocal: &Reciprocal) -> (ret__: (Self, Limb))
+//@+
+    requires self.nl() >= 1, reciprocal.wf(), reciprocal.dv() > 0, reciprocal.divisor_normalized as int == reciprocal.dv() * p2(reciprocal.shift as nat)
+    ensures ret__.0.nl() == self.nl(), ret__.0.v() * reciprocal.dv() + ret__.1.0 as int == self.v(), (ret__.1.0 as int) < reciprocal.dv(),
+        ret__.0.v() == self.v() / reciprocal.dv(), ret__.1.0 as int == self.v() % reciprocal.dv()
+//@-
+{
+        boxed::div_limb::div_rem_limb_with_reciprocal(self, reciprocal)
+    }
+}
+//@@ end
+//@@ fn src/uint/boxed/div.rs | impl BoxedUint | div_rem_limb | body | props C02 C11 C15
+impl BoxedUint {
+pub fn div_rem_limb(&self, rhs: NonZero<Limb>) -> (ret__: (Self, Limb))
+//@+
+    requires self.nl() >= 1, rhs.0.0 != 0
+    ensures ret__.0.nl() == self.nl(), ret__.0.v() * rhs.0.0 as int + ret__.1.0 as int == self.v(), ret__.1.0 < rhs.0.0,
+        ret__.0.v() == self.v() / (rhs.0.0 as int), ret__.1.0 as int == self.v() % (rhs.0.0 as int)
+//@-
+{
+        boxed::div_limb::div_rem_limb_with_reciprocal(self, &Reciprocal::new(rhs))
+    }
+}
+//@@ end
+//@@ fn src/uint/boxed/div.rs | impl BoxedUint | rem_limb_with_reciprocal | body | props C02 C11 C15
+impl BoxedUint {
+pub fn rem_limb_with_reciprocal(&self, reciprocal: &Reciprocal) -> (ret__: Limb)
+//@+
+    requires self.nl() >= 1, reciprocal.wf(), reciprocal.dv() > 0, reciprocal.divisor_normalized as int == reciprocal.dv() * p2(reciprocal.shift as nat)
+    ensures ret__.0 as int == self.v() % reciprocal.dv()
+//@-
+{
+        boxed::div_limb::rem_limb_with_reciprocal(self, reciprocal)
+    }
+}
+//@@ end
+//@@ fn src/uint/boxed/div.rs | impl BoxedUint | rem_limb | body | props C02 C11 C15
+impl BoxedUint {
+pub fn rem_limb(&self, rhs: NonZero<Limb>) -> (ret__: Limb)
+//@+
+    requires self.nl() >= 1, rhs.0.0 != 0
+    ensures ret__.0 as int == self.v() % (rhs.0.0 as int)
+//@-
+{
+        boxed::div_limb::rem_limb_with_reciprocal(self, &Reciprocal::new(rhs))
+    }
+}
+//@@ end
+//@@ fn src/uint/boxed/div.rs | impl BoxedUint | rem | body | props C02 C11 C15
+impl BoxedUint {
+pub fn rem(&self, rhs: &NonZero<Self>) -> (ret__: Self)
+//@+
+    requires self.wf(), self.nl() == rhs.0.nl(), rhs.0.v() != 0
+    ensures ret__.nl() == rhs.0.nl(), ret__.v() == self.v() % rhs.0.v(), ret__.v() < rhs.0.v()
+//@-
+{
+        self.div_rem(rhs).1
+    }
+}
+//@@ end
+//@@ fn src/uint/boxed/div.rs | impl BoxedUint | rem_vartime | body | props C02 C11 C15
+impl BoxedUint {
+pub fn rem_vartime(&self, rhs: &NonZero<Self>) -> (ret__: Self)
+//@+
+    requires self.wf(), rhs.0.wf(), rhs.0.v() != 0, rhs.0.v() < B()
+    ensures ret__.nl() == rhs.0.nl(), ret__.v() == self.v() % rhs.0.v(), ret__.v() < rhs.0.v()
+//@-
+{
+//@+
+    proof {
+        // the divisor fits one limb: its value is limbs[0] (non-zero) and bits_vartime() <= 64
+        let d = rhs.0; let n = d.nl();
+        lemma_rng(&d); lemma_bp1(); lemma_pow2_64(); lemma_nlimbs_for(n);
+        lemma_val_mod(d.limbs@, 1, n);
+        lemma_small_mod(d.v() as nat, B() as nat);
+        assert(val(d.limbs@, 1) == d.limbs@[0].0 as int) by { lemma_val_single(d.limbs@, 1); }
+        assert forall|b: u32| b > 64 && d.v() >= #[trigger] p2((b - 1) as nat) implies false by {
+            if b > 65 { lemma_pow2_strictly_increases(64, (b - 1) as nat); }
+        }
+    }
+//@-
+        let yc = rhs.0.bits_vartime().div_ceil(Limb::BITS) as usize;
+        match yc {
+            0 => panic!("zero divisor"),
+            1 => {
+                // Perform limb division
+                let rem_limb = self.rem_limb(rhs.0.limbs[0].to_nz().expect("zero divisor"));
+                let mut rem = Self::zero_with_precision(rhs.bits_precision());
+                rem.limbs[0] = rem_limb;
+//@+
+    proof { lemma_val_single(rem.limbs@, rem.limbs@.len()); }
+//@-
+                rem
+            }
+            _ if yc > self.limbs.len() => {
+                let mut rem = Self::zero_with_precision(rhs.bits_precision());
+                rem.limbs[..self.limbs.len()].copy_from_slice(&self.limbs);
+                rem
+            }
+            _ => {
+                let mut quo = self.clone();
+                let mut rem = rhs.0.clone();
+                div_rem_vartime_in_place(&mut quo.limbs, &mut rem.limbs[..yc]);
+                rem
+            }
+        }
+    }
+}
+//@@ end
+//@@ fn src/uint/boxed/div.rs | impl BoxedUint | wrapping_div | body | props C02 C11 C15
+impl BoxedUint {
+pub fn wrapping_div(&self, rhs: &NonZero<Self>) -> (ret__: Self)
+//@+
+    requires self.wf(), self.nl() == rhs.0.nl(), rhs.0.v() != 0
+    ensures ret__.nl() == self.nl(), ret__.v() == self.v() / rhs.0.v()
+//@-
+{
+        self.div_rem(rhs).0
+    }
+}
+//@@ end
+//@@ fn src/uint/boxed/div.rs | impl BoxedUint | checked_div | body | props C02 C11 C15
+impl BoxedUint {
+pub fn checked_div(&self, rhs: &Self) -> (ret__: CtOption<Self>)
+//@+
+    requires self.wf(), rhs.nl() == self.nl()
+    ensures ret__.is_some.wf(), ret__.is_some.t() == (rhs.v() != 0), ret__.value.nl() == self.nl(),
+        rhs.v() != 0 ==> ret__.value.v() == self.v() / rhs.v()
+//@-
+{
+        let is_nz = rhs.is_nonzero();
+        let nz = NonZero(Self::ct_select(
+            &Self::one_with_precision(self.bits_precision()),
+            rhs,
+            is_nz,
+        ));
+        let q = self.div_rem_unchecked(&nz).0;
+        CtOption::new(q, is_nz)
+    }
+}
+//@@ end
+
+// ---- trait forms of the division wrappers (operator preconditions: vstd `DivSpecImpl::div_req` / `RemSpecImpl::rem_req`; no vstd-level
+// result value is claimed, the behaviour is the `ensures` of the regions)
+pub open spec fn bdiv_req(a: &BoxedUint, d: &NonZero<BoxedUint>) -> bool { a.wf() && a.nl() == d.0.nl() && d.0.v() != 0 }
+impl<'a, 'b> vstd::std_specs::ops::DivSpecImpl<&'a NonZero<BoxedUint>> for &'b BoxedUint {
+    open spec fn obeys_div_spec() -> bool { false }
+    open spec fn div_req(self, rhs: &'a NonZero<BoxedUint>) -> bool { bdiv_req(self, rhs) }
+    open spec fn div_spec(self, rhs: &'a NonZero<BoxedUint>) -> BoxedUint { arbitrary() }
+}
+impl<'a> vstd::std_specs::ops::DivSpecImpl<&'a NonZero<BoxedUint>> for BoxedUint {
+    open spec fn obeys_div_spec() -> bool { false }
+    open spec fn div_req(self, rhs: &'a NonZero<BoxedUint>) -> bool { bdiv_req(&self, rhs) }
+    open spec fn div_spec(self, rhs: &'a NonZero<BoxedUint>) -> BoxedUint { arbitrary() }
+}
+impl<'b> vstd::std_specs::ops::DivSpecImpl<NonZero<BoxedUint>> for &'b BoxedUint {
+    open spec fn obeys_div_spec() -> bool { false }
+    open spec fn div_req(self, rhs: NonZero<BoxedUint>) -> bool { bdiv_req(self, &rhs) }
+    open spec fn div_spec(self, rhs: NonZero<BoxedUint>) -> BoxedUint { arbitrary() }
+}
+impl vstd::std_specs::ops::DivSpecImpl<NonZero<BoxedUint>> for BoxedUint {
+    open spec fn obeys_div_spec() -> bool { false }
+    open spec fn div_req(self, rhs: NonZero<BoxedUint>) -> bool { bdiv_req(&self, &rhs) }
+    open spec fn div_spec(self, rhs: NonZero<BoxedUint>) -> BoxedUint { arbitrary() }
+}
+impl<'a, 'b> vstd::std_specs::ops::RemSpecImpl<&'a NonZero<BoxedUint>> for &'b BoxedUint {
+    open spec fn obeys_rem_spec() -> bool { false }
+    open spec fn rem_req(self, rhs: &'a NonZero<BoxedUint>) -> bool { bdiv_req(self, rhs) }
+    open spec fn rem_spec(self, rhs: &'a NonZero<BoxedUint>) -> BoxedUint { arbitrary() }
+}
+//@@ fn src/uint/boxed/div.rs | impl CheckedDiv for BoxedUint | checked_div | body | props C02 C11 C15
+impl CheckedDiv for BoxedUint {
+//@+
+    open spec fn checked_div_req(&self, rhs: &BoxedUint) -> bool { self.wf() && rhs.nl() == self.nl() }
+    open spec fn checked_div_ens(&self, rhs: &BoxedUint, r: CtOption<Self>) -> bool {
+        r.is_some.wf() && r.is_some.t() == (rhs.v() != 0) && r.value.nl() == self.nl() && (rhs.v() != 0 ==> r.value.v() == self.v() / rhs.v())
+    }
+//@-
+fn checked_div(&self, rhs: &BoxedUint) -> (ret__: CtOption<Self>)
+{
+        self.checked_div(rhs)
+    }
+}
+//@@ end
+//@@ fn src/uint/boxed/div.rs | impl DivVartime for BoxedUint | div_vartime | body | props C02 C11 C15
+impl DivVartime for BoxedUint {
+//@+
+    open spec fn div_vartime_req(&self, rhs: &NonZero<BoxedUint>) -> bool { self.wf() && rhs.0.wf() && rhs.0.v() != 0 }
+    open spec fn div_vartime_ens(&self, rhs: &NonZero<BoxedUint>, r: Self) -> bool { r.nl() == self.nl() && r.v() == self.v() / rhs.0.v() }
+//@-
+fn div_vartime(&self, rhs: &NonZero<BoxedUint>) -> (ret__: Self)
+{
+        self.div_rem_vartime(rhs).0
+    }
+}
+//@@ end
+//@@ fn src/uint/boxed/div.rs | impl Div<&NonZero<BoxedUint>> for &BoxedUint | div | body | props C02 C11 C15
+impl Div<&NonZero<BoxedUint>> for &BoxedUint {
+//@+
+    type Output = BoxedUint;
+//@-
+fn div(self, rhs: &NonZero<BoxedUint>) -> (ret__: Self::Output)
+//@+
+    ensures ret__.nl() == self.nl(), ret__.v() == self.v() / rhs.0.v()
+//@-
+{
+        self.wrapping_div(rhs)
+    }
+}
+//@@ end
+//@@ fn src/uint/boxed/div.rs | impl Div<&NonZero<BoxedUint>> for BoxedUint | div | body | props C02 C11 C15
+impl Div<&NonZero<BoxedUint>> for BoxedUint {
+//@+
+    type Output = BoxedUint;
+//@-
+fn div(self, rhs: &NonZero<BoxedUint>) -> (ret__: Self::Output)
+//@+
+    ensures ret__.nl() == self.nl(), ret__.v() == self.v() / rhs.0.v()
+//@-
+{
+        self.wrapping_div(rhs)
+    }
+}
+//@@ end
+//@@ fn src/uint/boxed/div.rs | impl Div<NonZero<BoxedUint>> for &BoxedUint | div | body | props C02 C11 C15
+impl Div<NonZero<BoxedUint>> for &BoxedUint {
+//@+
+    type Output = BoxedUint;
+//@-
+fn div(self, rhs: NonZero<BoxedUint>) -> (ret__: Self::Output)
+//@+
+    ensures ret__.nl() == self.nl(), ret__.v() == self.v() / rhs.0.v()
+//@-
+{
+        self.wrapping_div(&rhs)
+    }
+}
+//@@ end
+//@@ fn src/uint/boxed/div.rs | impl Div<NonZero<BoxedUint>> for BoxedUint | div | body | props C02 C11 C15
+impl Div<NonZero<BoxedUint>> for BoxedUint {
+//@+
+    type Output = BoxedUint;
+//@-
+fn div(self, rhs: NonZero<BoxedUint>) -> (ret__: Self::Output)
+//@+
+    ensures ret__.nl() == self.nl(), ret__.v() == self.v() / rhs.0.v()
+//@-
+{
+        self.div_rem(&rhs).0
+    }
+}
+//@@ end
+//@@ fn src/uint/boxed/div.rs | impl Rem<&NonZero<BoxedUint>> for &BoxedUint | rem | body | props C02 C11 C15
+impl Rem<&NonZero<BoxedUint>> for &BoxedUint {
+//@+
+    type Output = BoxedUint;
+//@-
+fn rem(self, rhs: &NonZero<BoxedUint>) -> (ret__: Self::Output)
+//@+
+    ensures ret__.nl() == rhs.0.nl(), ret__.v() == self.v() % rhs.0.v(), ret__.v() < rhs.0.v()
+//@-
+{
+        self.rem(rhs)
+    }
+}
+//@@ end
+
+// ------------------------------------------------------------------------------------------------
+// C10: gcd wrapper (src/uint/boxed/gcd.rs) over the ASSUMED odd-operand safegcd (src/modular/safegcd/boxed.rs)
+// ------------------------------------------------------------------------------------------------
+/// `Integer::is_odd` of /repo/src/traits.rs is a provided method (`self.as_ref().first().map(|limb| limb.is_odd()).unwrap_or_else(..)`:
+/// iterator adaptors + closures, and the trait header lists ~90 supertraits), BoxedUint does not override it.
+/// Hand-declared with its contract; the BoxedUint instance is ASSUMED (external_body): parity of the value, 0 limbs -> even.
+pub trait Integer {
+    spec fn is_odd_spec(&self) -> bool;
+    fn is_odd(&self) -> (r: Choice)
+        ensures r.wf(), r.t() == self.is_odd_spec();
+}
+impl Integer for BoxedUint {
+    open spec fn is_odd_spec(&self) -> bool { self.v() % 2 == 1 }
+    #[verifier::external_body]
+    fn is_odd(&self) -> (r: Choice)
+    { unimplemented!() }
+}
+/// `Gcd` of /repo/src/traits.rs (`gcd` only, see ConstantTimeSelect above)
+pub trait Gcd<Rhs = Self>: Sized {
+    type Output;
+    spec fn gcd_req(&self, rhs: &Rhs) -> bool;
+    spec fn gcd_ens(&self, rhs: &Rhs, r: Self::Output) -> bool;
+    fn gcd(&self, rhs: &Rhs) -> (r: Self::Output)
+        requires self.gcd_req(rhs)
+        ensures self.gcd_ens(rhs, r);
+}
+// /repo calls the free function of src/modular/safegcd/boxed.rs through the path `safegcd::boxed::gcd`
+mod safegcd { pub mod boxed { pub use crate::l8_boxed_methods::gcd; } }
+//@@ fn src/uint/boxed/bits.rs | impl BoxedUint | trailing_zeros | body | props C05 C11
+impl BoxedUint {
+pub fn trailing_zeros(&self) -> (ret__: u32)
+//@+
+    requires self.limbs@.len() < 0x400_0000
+    ensures ret__ as int <= 64 * self.nl(), (ret__ as int == 64 * self.nl()) == (self.v() == 0),
+        self.v() % p2(ret__ as nat) == 0, (ret__ as int) < 64 * self.nl() ==> (self.v() / p2(ret__ as nat)) % 2 == 1
+//@-
+{
+        trailing_zeros(&self.limbs)
+    }
+}
+//@@ end
+//@@ fn src/uint/boxed/shr.rs | impl BoxedUint | overflowing_shr_assign | stub | props C05 C11
+impl BoxedUint {
+#[verifier::external_body]
+pub fn overflowing_shr_assign(&mut self, shift: u32) -> (ret__: Choice)
+//@+
+    requires old(self).wf()
+    ensures final(self).nl() == old(self).nl(), ret__.wf(), ret__.t() == (shift as int >= 64 * old(self).nl()),
+        final(self).v() == (if shift as int >= 64 * old(self).nl() { 0 } else { old(self).v() / p2(shift as nat) })
+//@-
+{
+    unimplemented!()
+}
+}
+//@@ end
+//@@ fn src/uint/boxed/shr.rs | impl BoxedUint | overflowing_shr | body | props C05 C11 C15
+impl BoxedUint {
+pub fn overflowing_shr(&self, shift: u32) -> (ret__: (Self, Choice))
+//@+
+    requires self.wf()
+    ensures ret__.0.nl() == self.nl(), ret__.1.wf(), ret__.1.t() == (shift as int >= 64 * self.nl()),
+        ret__.0.v() == (if shift as int >= 64 * self.nl() { 0 } else { self.v() / p2(shift as nat) })
+//@-
+{
+        let mut result = self.clone();
+        let overflow = result.overflowing_shr_assign(shift);
+        (result, overflow)
+    }
+}
+//@@ end
+//@@ fn src/uint/boxed/bit_and.rs | impl BoxedUint | bitand | stub | props C05 C11 C15
+impl BoxedUint {
+#[verifier::external_body]
+pub fn bitand(&self, rhs: &Self) -> (ret__: Self)
+//@+
+    requires self.nl() >= 1 || rhs.nl() >= 1
+    ensures ret__.nl() == max_nat(self.nl(), rhs.nl()),
+        forall|j: int| 0 <= j < ret__.limbs@.len() ==> ret__.limbs@[j].0
+            == (if j < self.limbs@.len() { self.limbs@[j].0 } else { 0u64 }) & (if j < rhs.limbs@.len() { rhs.limbs@[j].0 } else { 0u64 })
+//@-
+{
+    unimplemented!()
+}
+}
+//@@ end
+//@@ fn src/modular/safegcd/boxed.rs | - | gcd | stub | props C10 C11
+#[verifier::external_body]
+pub fn gcd(f: &BoxedUint, g: &BoxedUint) -> (ret__: BoxedUint)
+//@+
+    // ASSUMED (Bernstein-Yang safegcd core `divsteps` on BoxedUnsatInt; not verified here). Domain as used by `Gcd for BoxedUint`:
+    // equal precisions (`to_uint(f.bits_precision())` debug-asserts the limb count), one operand odd or both zero.
+    requires f.wf(), g.nl() == f.nl(), f.v() % 2 == 1 || g.v() % 2 == 1 || (f.v() == 0 && g.v() == 0)
+    ensures ret__.nl() == f.nl(), ret__.v() == spec_gcd(f.v() as nat, g.v() as nat)
+//@-
+{
+    unimplemented!()
+}
+//@@ end
+//@@ fn src/uint/boxed/gcd.rs | impl Gcd for BoxedUint | gcd | body | props C10 C11 C15
+impl Gcd for BoxedUint {
+//@+
+    type Output = Self;
+    open spec fn gcd_req(&self, rhs: &Self) -> bool { self.wf() && rhs.nl() == self.nl() }
+    open spec fn gcd_ens(&self, rhs: &Self, r: Self) -> bool { r.nl() == self.nl() && r.v() == spec_gcd(self.v() as nat, rhs.v() as nat) }
+//@-
+fn gcd(&self, rhs: &Self) -> (ret__: Self)
+{
+//@+
+    let ghost av = self.v(); let ghost bv = rhs.v(); let ghost nl = self.nl(); let ghost w = bp(nl);
+    proof { lemma_rng(self); lemma_rng(rhs); lemma_not_all(); lemma_bp_pow2(nl); }
+//@-
+        let k1 = self.trailing_zeros();
+        let k2 = rhs.trailing_zeros();
+        // Select the smaller of the two `k` values, making 2^k the common even divisor
+        let k = u32::conditional_select(&k1, &k2, u32::ct_lt(&k2, &k1));
+        // Decompose `self` and `rhs` into `s{1, 2} * 2^k` where either `s1` or `s2` is odd
+        let s1 = self.overflowing_shr(k).0;
+        let s2 = rhs.overflowing_shr(k).0;
+        let f = Self::ct_select(&s1, &s2, !s2.is_odd());
+        let g = Self::ct_select(&s1, &s2, s2.is_odd());
+//@+
+    proof {
+        if av == 0 && bv == 0 {
+            lemma_gcd_divides(0, 0);
+            assert(0int / p2(k as nat) == 0) by { lemma_p2_pos(k as nat); lemma_basic_div(0, p2(k as nat)); }
+        } else {
+            lemma_p2_divides_mono(av, k as nat, k1 as nat); lemma_p2_divides_mono(bv, k as nat, k2 as nat);
+            lemma_gcd_pow2_split(av, bv, k as nat, s1.v(), s2.v(), w);
+            assert(g.v() % 2 == 1);
+        }
+    }
+//@-
+        safegcd::boxed::gcd(&f, &g).overflowing_shl(k).0
+    }
+}
+//@@ end
+
+// ------------------------------------------------------------------------------------------------
+// primitives used by l8_boxed_pow.rs (BoxedMontyMultiplier / pow_montgomery_form)
+// ------------------------------------------------------------------------------------------------
+/// shifts by constants inside local `const` items / range bounds of pow_montgomery_form (`1 << WINDOW`, WINDOW = 4): a `const` initialiser
+/// has no place for a proof hint, l8_boxed_pow.rs brings these in with a module-level `broadcast use`
+pub broadcast proof fn lemma_shl4_u64(x: u64)
+    ensures x == 1 ==> #[trigger] (x << 4u32) == 16u64
+{ assert(x == 1 ==> x << 4u32 == 16u64) by (bit_vector); }
+pub broadcast proof fn lemma_shl4_usize(x: usize)
+    ensures x == 1 ==> #[trigger] (x << 4u32) == 16usize
+{ assert(x == 1 ==> x << 4u32 == 16usize) by (bit_vector); }
+pub broadcast proof fn lemma_shl_small_u64(x: u64, s: u32)
+    ensures (x == 1 && 1 <= s <= 4) ==> 2 <= #[trigger] (x << s) <= 16
+{ assert((x == 1 && 1 <= s <= 4) ==> 2 <= (x << s) <= 16) by (bit_vector); }
+
+//@@ fn src/uint/boxed.rs | impl BoxedUint | as_limbs_mut | stub | props C16 C11
+impl BoxedUint {
+#[verifier::external_body]
+pub fn as_limbs_mut(&mut self) -> (ret__: &mut [Limb])
+//@+
+    ensures ret__@ == old(self).limbs@, final(self).limbs@ == final(ret__)@
+//@-
+{
+    unimplemented!()
+}
+}
+//@@ end
+//@@ fn src/uint/boxed/sub.rs | impl BoxedUint | conditional_sbb_assign | body | props C04 C11
+impl BoxedUint {
+pub fn conditional_sbb_assign(&mut self, rhs: &Self, choice: Choice) -> (ret__: Choice)
+//@+
+    requires old(self).limbs@.len() <= rhs.limbs@.len() < 0x400_0000, choice.wf()
+    ensures final(self).nl() == old(self).nl(), ret__.wf(),
+        final(self).v() - (if ret__.t() { bp(old(self).nl()) } else { 0 })
+            == old(self).v() - (if choice.t() { val(rhs.limbs@, old(self).nl()) } else { 0 })
+//@-
+{
+//@+
+    let ghost s0 = self.limbs@; let ghost n = self.limbs@.len(); let ghost m: int = if choice.t() { 1 } else { 0 };
+//@-
+        debug_assert!(self.bits_precision() <= rhs.bits_precision());
+        let mask = Limb::conditional_select(&Limb::ZERO, &Limb::MAX, choice);
+        let mut borrow = Limb::ZERO;
+//@+
+    proof {
+        lemma_bp_succ(0);
+        assert(m * val(rhs.limbs@, 0) == 0) by (nonlinear_arith) requires val(rhs.limbs@, 0) == 0;
+        assert(bb(borrow) * bp(0) == 0) by (nonlinear_arith) requires bb(borrow) == 0;
+    }
+//@-
+        for i in 0..self.nlimbs()
+//@+
+    invariant self.limbs@.len() == n, s0.len() == n, n <= rhs.limbs@.len(), VERUS_ghost_iter.iter.end == n, choice.wf(),
+        m == (if choice.t() { 1int } else { 0int }), mask.0 == (if choice.t() { u64::MAX } else { 0u64 }), borrow.0 == 0 || borrow.0 == u64::MAX,
+        forall|k: int| VERUS_ghost_iter.index@ <= k < n ==> self.limbs@[k] == s0[k],
+        val(self.limbs@, VERUS_ghost_iter.index@ as nat) - bb(borrow) * bp(VERUS_ghost_iter.index@ as nat)
+            == val(s0, VERUS_ghost_iter.index@ as nat) - m * val(rhs.limbs@, VERUS_ghost_iter.index@ as nat),
+//@-
+{
+//@+
+    let ghost sb = self.limbs@; let ghost bw0 = bb(borrow); let ghost ri = rhs.limbs@[i as int].0;
+    proof {
+        assert(ri & 0xffff_ffff_ffff_ffffu64 == ri) by (bit_vector);
+        assert(ri & 0u64 == 0u64) by (bit_vector);
+    }
+//@-
+            let masked_rhs = *rhs.limbs.get(i).unwrap_or(&Limb::ZERO) & mask;
+            let (limb, b) = self.limbs[i].sbb(masked_rhs, borrow);
+            self.limbs[i] = limb;
+            borrow = b;
+//@+
+    proof {
+        lemma_val_ext(sb, self.limbs@, i as nat);
+        lemma_bp_succ(i as nat);
+        let pk = bp(i as nat); let x = limb.0 as int; let b1 = bb(borrow);
+        let si = s0[i as int].0 as int; let mr = masked_rhs.0 as int; let rv = ri as int;
+        assert(mr == m * rv) by (nonlinear_arith) requires (m == 1 && mr == rv) || (m == 0 && mr == 0);
+        assert(x - b1 * B() == si - mr - bw0);
+        assert(x * pk - b1 * (B() * pk) == si * pk - (m * rv) * pk - bw0 * pk) by (nonlinear_arith) requires x - b1 * B() == si - m * rv - bw0;
+        assert(m * (val(rhs.limbs@, i as nat) + rv * pk) == m * val(rhs.limbs@, i as nat) + (m * rv) * pk) by (nonlinear_arith);
+    }
+//@-
+        }
+//@+
+    proof {
+        let bw = borrow.0;
+        assert((bw & 1) == (if bw == 0xffff_ffff_ffff_ffffu64 { 1u64 } else { 0u64 })) by (bit_vector) requires bw == 0 || bw == 0xffff_ffff_ffff_ffffu64;
+        assert(bb(borrow) * bp(n) == (if bb(borrow) == 1 { bp(n) } else { 0 })) by (nonlinear_arith) requires bb(borrow) == 0 || bb(borrow) == 1;
+        assert(m * val(rhs.limbs@, n) == (if choice.t() { val(rhs.limbs@, n) } else { 0 })) by (nonlinear_arith) requires m == (if choice.t() { 1int } else { 0int });
+    }
+//@-
+        Choice::from((borrow.0 & 1) as u8)
+    }
+}
+//@@ end
+//@@ fn src/uint/boxed/cmp.rs | impl ConstantTimeLess for BoxedUint | ct_lt | body | props C06 C11
+impl ConstantTimeLess for BoxedUint {
+//@+
+    open spec fn ct_lt_req(&self, other: &Self) -> bool { self.nl() >= 1 || other.nl() >= 1 }
+    open spec fn ct_lt_ens(&self, other: &Self, r: Choice) -> bool { r.wf() && r.t() == (self.v() < other.v()) }
+//@-
+fn ct_lt(&self, other: &Self) -> (ret__: Choice)
+{
+//@+
+    let ghost ww = bp(max_nat(other.nl(), self.nl()));
+    assert(0u64 >> 63 == 0) by (bit_vector);
+    assert forall|u: BoxedUint| 0 <= #[trigger] u.v() < bp(u.nl()) by { lemma_rng(&u); }
+//@-
+        let (_, borrow) = self.sbb(other, Limb::ZERO);
+//@+
+    assert(bb(borrow) * ww == (if bb(borrow) == 1 { ww } else { 0 })) by (nonlinear_arith) requires bb(borrow) == 0 || bb(borrow) == 1;
+//@-
+        ConstChoice::from_word_mask(borrow.0).into()
     }
 }
 //@@ end
